@@ -1,11 +1,13 @@
 (* C11 -- proofs about the model of identity resolution (Model/Identity.v) against Spec/C11.v.
 
-   Layout: order on strings and the sort; appendIfNotIn / addChildren (specification of the depth-first
-   closure for an arbitrary Values table, cyclic or not, and sufficiency of the fuel); the second loop of
-   resolveIdentities (direct children, base errors); the third loop (closure over a table that mixes already
-   closed and not yet closed lists: invariant  direct <= Values <= derived); wholeModule = reachability
-   through include statements; the dictionary; findIdentityBase = [resolves]; the theorems about
-   [resolve_identities] for all iteration oracles. *)
+   Layout: order on strings, the stable sort, the lexicographic order of the sort keys; appendIfNotIn /
+   addChildren (specification of the depth-first closure for an arbitrary Values table, cyclic or not, and
+   sufficiency of the fuel); the second loop of resolveIdentities (direct children, base errors); the third loop
+   (closure over a table that mixes already closed and not yet closed lists: invariant
+   direct <= Values <= derived; a declaration filed under several keys is closed several times); the two maps of
+   Modules, sortedModules, wholeModule = reachability through include statements (for schemas Modules.add
+   accepts: [wf_schema]); findIdentityBase = [resolves]; the theorems about [resolve_identities] for all
+   iteration oracles; the dictionary = [filed], the owners table = [owner_of]. *)
 From Coq Require Import Ascii String List Bool Arith Lia NArith Sorting.Sorted Permutation Relations Operators_Properties.
 From GY Require Import Model.Identity Spec.C11.
 Import ListNotations.
@@ -58,7 +60,6 @@ Variable less : key -> key -> bool.
 Definition le_of (a b : key) : Prop := less b a = false.
 Hypothesis less_asym : forall a b, less a b = true -> less b a = false.
 Hypothesis le_trans : forall a b c, le_of a b -> le_of b c -> le_of a c.
-Hypothesis le_antisym : forall a b, le_of a b -> le_of b a -> a = b.
 
 Lemma insert_perm x l : Permutation (x :: l) (insert_sorted less x l).
 Proof.
@@ -102,65 +103,56 @@ Proof. split; apply Permutation_in; [apply Permutation_sym|]; apply sort_perm. Q
 Lemma sort_nodup l : NoDup l -> NoDup (stable_sort less l).
 Proof. intro H. eapply Permutation_NoDup; [apply sort_perm|exact H]. Qed.
 
-Lemma sorted_unique : forall l1 l2,
-  StronglySorted le_of l1 -> StronglySorted le_of l2 -> NoDup l1 -> NoDup l2 ->
-  (forall x, In x l1 <-> In x l2) -> l1 = l2.
-Proof.
-  induction l1 as [|a l1 IH]; intros l2 S1 S2 N1 N2 Heq.
-  - destruct l2 as [|b l2]; auto. exfalso. apply (proj2 (Heq b)). left; auto.
-  - destruct l2 as [|b l2]. { exfalso. apply (proj1 (Heq a)). left; auto. }
-    inversion S1 as [|? ? S1' F1]; subst. inversion S2 as [|? ? S2' F2]; subst.
-    inversion N1 as [|? ? Na N1']; subst. inversion N2 as [|? ? Nb N2']; subst.
-    rewrite Forall_forall in F1, F2.
-    assert (a = b).
-    { destruct (proj1 (Heq a) (or_introl eq_refl)) as [E|Hin]; [symmetry; exact E|].
-      destruct (proj2 (Heq b) (or_introl eq_refl)) as [E|Hin']; [exact E|].
-      apply le_antisym; [apply F1; exact Hin'|apply F2; exact Hin]. }
-    subst b. f_equal. apply IH; auto.
-    intro x. split; intro Hx.
-    + destruct (proj1 (Heq x) (or_intror Hx)) as [E|]; auto. subst; contradiction.
-    + destruct (proj2 (Heq x) (or_intror Hx)) as [E|]; auto. subst; contradiction.
-Qed.
 End Sort.
 
-(* the order used by resolveIdentities *)
+(* the order used by resolveIdentities: lexicographic on the list of compared fields *)
 Lemma str_ltb_conn a b : str_ltb a b = false -> a <> b -> str_ltb b a = true.
 Proof.
   intros H N. destruct (str_ltb b a) eqn:E; auto. exfalso. apply N. apply str_ltb_total; auto.
 Qed.
 
-Lemma id_less_asym d a b : id_less d a b = true -> id_less d b a = false.
+Lemma lex_irrefl : forall a, lex_ltb a a = false.
+Proof. induction a as [|x a IH]; simpl; auto. rewrite String.eqb_refl. simpl. exact IH. Qed.
+
+Lemma lex_trans : forall a b c, lex_ltb a b = true -> lex_ltb b c = true -> lex_ltb a c = true.
 Proof.
-  unfold id_less. rewrite (String.eqb_sym (ident_name d b)).
-  destruct (ident_name d a =? ident_name d b); simpl; apply str_ltb_asym.
+  induction a as [|x a IH]; intros [|y b] [|z c]; simpl; try congruence.
+  destruct (String.eqb_spec x y) as [Exy|Nxy]; destruct (String.eqb_spec y z) as [Eyz|Nyz];
+    destruct (String.eqb_spec x z) as [Exz|Nxz]; cbn [negb]; subst; try congruence.
+  - apply IH.
+  - intros H1 H2. rewrite (str_ltb_asym _ _ H1) in H2. discriminate.
+  - intros H1 H2. eapply str_ltb_trans; eauto.
 Qed.
 
-Lemma id_le_antisym d a b : le_of (id_less d) a b -> le_of (id_less d) b a -> a = b.
+Lemma lex_conn : forall a b, lex_ltb a b = false -> lex_ltb b a = false -> a = b.
 Proof.
-  unfold le_of, id_less. rewrite (String.eqb_sym (ident_name d b)).
-  destruct (String.eqb_spec (ident_name d a) (ident_name d b)) as [E|N]; simpl; intros H1 H2.
-  - apply str_ltb_total; auto.
-  - exfalso. apply N. apply str_ltb_total; auto.
+  induction a as [|x a IH]; intros [|y b]; simpl; try congruence.
+  rewrite (String.eqb_sym y x). destruct (String.eqb_spec x y) as [->|N]; simpl.
+  - intros H1 H2. f_equal. apply IH; auto.
+  - intros H1 H2. exfalso. apply N. apply str_ltb_total; auto.
 Qed.
 
-Lemma id_le_trans d a b c : le_of (id_less d) a b -> le_of (id_less d) b c -> le_of (id_less d) a c.
+Lemma lex_asym a b : lex_ltb a b = true -> lex_ltb b a = false.
 Proof.
-  unfold le_of, id_less.
-  set (na := ident_name d a). set (nb := ident_name d b). set (nc := ident_name d c).
-  destruct (String.eqb_spec nb na) as [Eba|Nba]; destruct (String.eqb_spec nc nb) as [Ecb|Ncb];
-  destruct (String.eqb_spec nc na) as [Eca|Nca]; simpl; intros H1 H2; try congruence.
-  - (* all names equal *)
-    destruct (str_ltb c a) eqn:E; auto. exfalso.
-    destruct (String.eqb_spec b a) as [->|Nab]; [congruence|].
-    pose proof (str_ltb_conn _ _ H1 Nab) as Hab.
-    rewrite (str_ltb_trans _ _ _ E Hab) in H2. discriminate.
-  - (* nb <> na, nc <> nb, nc = na *)
-    exfalso. pose proof (str_ltb_conn _ _ H1 Nba) as Hab. pose proof (str_ltb_conn _ _ H2 Ncb) as Hbc.
-    rewrite Eca in Hbc. rewrite (str_ltb_asym _ _ Hab) in Hbc. discriminate.
-  - destruct (str_ltb nc na) eqn:E; auto. exfalso.
-    pose proof (str_ltb_conn _ _ H1 Nba) as Hab.
-    rewrite (str_ltb_trans _ _ _ E Hab) in H2. discriminate.
+  intro H. destruct (lex_ltb b a) eqn:E; auto.
+  pose proof (lex_trans _ _ _ H E) as F. rewrite lex_irrefl in F. discriminate.
 Qed.
+
+(* negative transitivity: "not less" is transitive *)
+Lemma lex_le_trans a b c : lex_ltb b a = false -> lex_ltb c b = false -> lex_ltb c a = false.
+Proof.
+  intros H1 H2. destruct (lex_ltb c a) eqn:E; auto. exfalso.
+  destruct (lex_ltb a b) eqn:Eab.
+  - rewrite (lex_trans _ _ _ E Eab) in H2. discriminate.
+  - assert (a = b) by (apply lex_conn; auto). subst. congruence.
+Qed.
+
+Lemma id_less_asym sc d a b : id_less sc d a b = true -> id_less sc d b a = false.
+Proof. unfold id_less. apply lex_asym. Qed.
+
+Lemma id_le_trans sc d a b c :
+  le_of (id_less sc d) a b -> le_of (id_less sc d) b c -> le_of (id_less sc d) a c.
+Proof. unfold le_of, id_less. apply lex_le_trans. Qed.
 
 (* ---------------- appendIfNotIn *)
 Lemma ain_in ids r : In r ids -> append_if_not_in ids r = ids.
@@ -370,35 +362,51 @@ Qed.
 Section Passes.
 Variable sc : schema.
 Variable d : dict.
+Variable t : owners_table.
 
-Definition fib (md : module) (s : string) : option key := find_identity_base sc d md s.
-
-(* resolved bases of the identity with key k *)
-Definition bases_res (k : key) : list (option key) :=
-  match dict_get d k with Some (md, i) => map (fib md) (i_bases i) | None => [] end.
+Definition fib (md : module) (s : string) : option entry := find_identity_base sc d t md s.
 
 (* ---------------- pass 2 *)
-Lemma p2_base_fold md k : forall bs st,
-  let st' := fold_left (pass2_base sc d md k) bs st in
-  (forall b x, In x (fst st' b) <-> In x (fst st b) \/ (x = k /\ In (Some b) (map (fib md) bs))) /\
-  (forall e, In e (snd st') <-> In e (snd st) \/ exists s, e = ErrBase k s /\ In s bs /\ fib md s = None).
+Lemma p2_base_fold e : forall bs st,
+  let st' := fold_left (pass2_base sc d t e) bs st in
+  (forall b x, In x (fst st' b) <->
+     In x (fst st b) \/ (x = did_of e /\ exists s be, In s bs /\ fib (fst e) s = Some be /\ did_of be = b)) /\
+  (forall er, In er (snd st') <->
+     In er (snd st) \/ exists s, er = ErrBase (did_of e) s /\ In s bs /\ fib (fst e) s = None).
 Proof.
   induction bs as [|s bs IH]; intros st; cbn [fold_left].
-  - split; intros; simpl; [tauto|]. split; [auto|]. intros [H|(s & _ & [] & _)]; auto.
-  - specialize (IH (pass2_base sc d md k st s)). cbv zeta in IH. destruct IH as (IH1 & IH2).
+  - split; intros; simpl.
+    + split; [auto|]. intros [H|(_ & s & be & [] & _)]; auto.
+    + split; [auto|]. intros [H|(s & _ & [] & _)]; auto.
+  - specialize (IH (pass2_base sc d t e st s)). cbv zeta in IH. destruct IH as (IH1 & IH2).
     split.
-    + intros b x. rewrite IH1. unfold pass2_base, fib. cbn [map In].
-      destruct (find_identity_base sc d md s) as [bk|] eqn:E; cbn [fst snd].
-      * unfold vset. destruct (String.eqb_spec b bk) as [->|N].
-        -- rewrite in_app_iff. cbn [In]. intuition (try congruence). 
-        -- intuition (try congruence).
-      * intuition congruence.
-    + intros e. rewrite IH2. unfold pass2_base, fib.
-      destruct (find_identity_base sc d md s) as [bk|] eqn:E; cbn [fst snd].
+    + intros b x. rewrite IH1. unfold pass2_base. change (find_identity_base sc d t (fst e) s) with (fib (fst e) s).
+      destruct (fib (fst e) s) as [be0|] eqn:E; cbn [fst snd].
+      * unfold vset. destruct (String.eqb_spec b (did_of be0)) as [->|N].
+        -- rewrite in_app_iff. cbn [In]. split.
+           ++ intros [[H|[<-|[]]]|(Hx & s' & be & Hs & Hf & Hb)]; auto.
+              ** right. split; auto. exists s, be0. simpl; auto.
+              ** right. split; auto. exists s', be. simpl; auto.
+           ++ intros [H|(Hx & s' & be & [<-|Hs] & Hf & Hb)]; auto;
+                right; split; auto; exists s', be; auto.
+        -- split.
+           ++ intros [H|(Hx & s' & be & Hs & Hf & Hb)]; auto.
+              right. split; auto. exists s', be. simpl; auto.
+           ++ intros [H|(Hx & s' & be & [<-|Hs] & Hf & Hb)]; auto.
+              ** exfalso. apply N. rewrite E in Hf. inversion Hf; subst. reflexivity.
+              ** right. split; auto. exists s', be. auto.
+      * split.
+        -- intros [H|(Hx & s' & be & Hs & Hf & Hb)]; auto.
+           right. split; auto. exists s', be. simpl; auto.
+        -- intros [H|(Hx & s' & be & [<-|Hs] & Hf & Hb)]; auto.
+           ++ congruence.
+           ++ right. split; auto. exists s', be. auto.
+    + intros er. rewrite IH2. unfold pass2_base. change (find_identity_base sc d t (fst e) s) with (fib (fst e) s).
+      destruct (fib (fst e) s) as [be0|] eqn:E; cbn [fst snd].
       * split.
         -- intros [H|(s' & He & Hs & Hn)]; auto. right. exists s'. simpl; auto.
         -- intros [H|(s' & He & [<-|Hs] & Hn)]; auto.
-           ++ unfold fib in Hn. congruence.
+           ++ congruence.
            ++ right. exists s'. auto.
       * rewrite in_app_iff. cbn [In]. split.
         -- intros [[H|[<-|[]]]|(s' & He & Hs & Hn)]; auto.
@@ -408,57 +416,68 @@ Proof.
            right. exists s'. auto.
 Qed.
 
-Definition base_err (order : list key) (e : err) : Prop :=
-  exists k s md i, e = ErrBase k s /\ In k order /\ dict_get d k = Some (md, i) /\ In s (i_bases i) /\ fib md s = None.
+(* x is registered as a direct child of b while the keys of order are visited *)
+Definition direct (order : list key) (b x : key) : Prop :=
+  exists k e s be, In k order /\ dict_get d k = Some e /\ x = did_of e /\ In s (i_bases (snd e)) /\
+                   fib (fst e) s = Some be /\ did_of be = b.
+
+Definition base_err (order : list key) (er : err) : Prop :=
+  exists k e s, er = ErrBase (did_of e) s /\ In k order /\ dict_get d k = Some e /\ In s (i_bases (snd e)) /\
+                fib (fst e) s = None.
 
 Lemma p2_fold : forall order st,
-  let st' := fold_left (pass2_step sc d) order st in
-  (forall b x, In x (fst st' b) <-> In x (fst st b) \/ (In x order /\ In (Some b) (bases_res x))) /\
-  (forall e, In e (snd st') <-> In e (snd st) \/ base_err order e).
+  let st' := fold_left (pass2_step sc d t) order st in
+  (forall b x, In x (fst st' b) <-> In x (fst st b) \/ direct order b x) /\
+  (forall er, In er (snd st') <-> In er (snd st) \/ base_err order er).
 Proof.
   induction order as [|k order IH]; intros st; cbn [fold_left].
-  - split; intros; simpl; [tauto|]. split; auto. intros [H|(k & s & md & i & _ & [] & _)]; auto.
-  - specialize (IH (pass2_step sc d st k)). cbv zeta in IH. destruct IH as (IH1 & IH2). split.
-    + intros b x. rewrite IH1. unfold pass2_step. unfold bases_res at 2.
-      destruct (dict_get d k) as [[md i]|] eqn:E.
-      * destruct (p2_base_fold md k (i_bases i) st) as (B1 & _). rewrite B1. cbn [In].
-        split.
-        -- intros [[H|(-> & H)]|(H1 & H2)]; auto.
-           right. split; auto. unfold bases_res. rewrite E. exact H.
-        -- intros [H|([<-|H1] & H2)]; auto.
-           left. right. split; auto. unfold bases_res in H2. rewrite E in H2. exact H2.
-      * cbn [In]. split.
-        -- intros [H|(H1 & H2)]; auto.
-        -- intros [H|([<-|H1] & H2)]; auto. unfold bases_res in H2. rewrite E in H2. destruct H2.
-    + intros e. rewrite IH2. unfold pass2_step.
-      destruct (dict_get d k) as [[md i]|] eqn:E.
-      * destruct (p2_base_fold md k (i_bases i) st) as (_ & B2). rewrite B2. split.
-        -- intros [[H|(s & -> & Hs & Hn)]|(k' & s & md' & i' & He & Hk & Hg & Hs & Hn)]; auto.
-           ++ right. exists k, s, md, i. simpl; auto 10.
-           ++ right. exists k', s, md', i'. simpl; auto 10.
-        -- intros [H|(k' & s & md' & i' & He & [<-|Hk] & Hg & Hs & Hn)]; auto.
-           ++ rewrite E in Hg. inversion Hg; subst. left. right. exists s. auto.
-           ++ right. exists k', s, md', i'. auto 10.
+  - split; intros; simpl.
+    + split; [auto|]. intros [H|(k & e & s & be & [] & _)]; auto.
+    + split; [auto|]. intros [H|(k & e & s & _ & [] & _)]; auto.
+  - specialize (IH (pass2_step sc d t st k)). cbv zeta in IH. destruct IH as (IH1 & IH2). split.
+    + intros b x. rewrite IH1. unfold pass2_step.
+      destruct (dict_get d k) as [e|] eqn:E.
+      * destruct (p2_base_fold e (i_bases (snd e)) st) as (B1 & _). rewrite B1. split.
+        -- intros [[H|(Hx & s & be & Hs & Hf & Hb)]|(k' & e' & s & be & Hk & Hg & Hx & Hs & Hf & Hb)]; auto.
+           ++ right. exists k, e, s, be. simpl; auto 10.
+           ++ right. exists k', e', s, be. simpl; auto 10.
+        -- intros [H|(k' & e' & s & be & [<-|Hk] & Hg & Hx & Hs & Hf & Hb)]; auto.
+           ++ rewrite E in Hg. inversion Hg; subst. left. right. split; auto. exists s, be. auto.
+           ++ right. exists k', e', s, be. auto 10.
       * split.
-        -- intros [H|(k' & s & md' & i' & He & Hk & Hg & Hs & Hn)]; auto.
-           right. exists k', s, md', i'. simpl; auto 10.
-        -- intros [H|(k' & s & md' & i' & He & [<-|Hk] & Hg & Hs & Hn)]; auto.
+        -- intros [H|(k' & e' & s & be & Hk & Hg & Hr)]; auto. right. exists k', e', s, be. simpl; auto.
+        -- intros [H|(k' & e' & s & be & [<-|Hk] & Hg & Hr)]; auto.
            ++ congruence.
-           ++ right. exists k', s, md', i'. auto 10.
+           ++ right. exists k', e', s, be. auto.
+    + intros er. rewrite IH2. unfold pass2_step.
+      destruct (dict_get d k) as [e|] eqn:E.
+      * destruct (p2_base_fold e (i_bases (snd e)) st) as (_ & B2). rewrite B2. split.
+        -- intros [[H|(s & -> & Hs & Hn)]|(k' & e' & s & He & Hk & Hg & Hs & Hn)]; auto.
+           ++ right. exists k, e, s. simpl; auto 10.
+           ++ right. exists k', e', s. simpl; auto 10.
+        -- intros [H|(k' & e' & s & He & [<-|Hk] & Hg & Hs & Hn)]; auto.
+           ++ rewrite E in Hg. inversion Hg; subst. left. right. exists s. auto.
+           ++ right. exists k', e', s. auto 10.
+      * split.
+        -- intros [H|(k' & e' & s & He & Hk & Hg & Hr)]; auto. right. exists k', e', s. simpl; auto.
+        -- intros [H|(k' & e' & s & He & [<-|Hk] & Hg & Hr)]; auto.
+           ++ congruence.
+           ++ right. exists k', e', s. auto.
 Qed.
 
 Lemma pass2_spec order :
-  (forall b x, In x (fst (pass2 sc d order) b) <-> In x order /\ In (Some b) (bases_res x)) /\
-  (forall e, In e (snd (pass2 sc d order)) <-> base_err order e).
+  (forall b x, In x (fst (pass2 sc d t order) b) <-> direct order b x) /\
+  (forall er, In er (snd (pass2 sc d t order)) <-> base_err order er).
 Proof.
   destruct (p2_fold order (vempty, [])) as (H1 & H2). split.
   - intros b x. unfold pass2. rewrite H1. simpl. tauto.
-  - intros e. unfold pass2. rewrite H2. simpl. tauto.
+  - intros er. unfold pass2. rewrite H2. simpl. tauto.
 Qed.
 
 End Passes.
 
 Section Pass3.
+Variable sc : schema.
 Variable d : dict.
 Variable V0 : vals.
 Variable ks : list key.
@@ -466,7 +485,7 @@ Hypothesis V0ks : forall x c, In c (V0 x) -> In c ks.
 
 Definition Dr : relation key := Rv V0.
 Definition good (b : key) (l : list key) : Prop :=
-  NoDup l /\ StronglySorted (le_of (id_less d)) l /\ forall x, In x l <-> clos_trans _ Dr b x.
+  NoDup l /\ StronglySorted (le_of (id_less sc d)) l /\ forall x, In x l <-> clos_trans _ Dr b x.
 Definition Jinv (V : vals) : Prop :=
   forall b i, (In i (V0 b) -> In i (V b)) /\ (In i (V b) -> clos_trans _ Dr b i).
 
@@ -492,25 +511,17 @@ Proof.
     + eapply t_trans; eauto.
 Qed.
 
-Lemma good_unique b l1 l2 : good b l1 -> good b l2 -> l1 = l2.
-Proof.
-  intros (N1 & S1 & I1) (N2 & S2 & I2).
-  apply (sorted_unique (id_less d)); auto.
-  - apply id_le_antisym.
-  - intro x. rewrite I1, I2. tauto.
-Qed.
-
 Definition cyc_errs (i : key) (nv : list key) (errs : list err) : list err :=
   if mem i nv then errs ++ [ErrCycle i] else errs.
 
-Lemma step_ok V errs i : Jinv V -> dict_get d i <> None ->
-  exists nv, pass3_step (length ks + 1) d (Some (V, errs)) i = Some (vset V i nv, cyc_errs i nv errs) /\
-             good i nv.
+Lemma step_ok V errs k e : Jinv V -> dict_get d k = Some e ->
+  exists nv, pass3_step (length ks + 1) sc d (Some (V, errs)) k =
+             Some (vset V (did_of e) nv, cyc_errs (did_of e) nv errs) /\
+             good (did_of e) nv.
 Proof.
-  intros J Hk. unfold pass3_step.
-  destruct (dict_get d i) as [e|]; [|congruence].
-  destruct (close_total V ks (Jinv_Vks V J) i) as (nv & E). rewrite E.
-  exists (stable_sort (id_less d) nv). split; [reflexivity|].
+  intros J Hk. unfold pass3_step. rewrite Hk.
+  destruct (close_total V ks (Jinv_Vks V J) (did_of e)) as (nv & E). rewrite E.
+  exists (stable_sort (id_less sc d) nv). split; [reflexivity|].
   destruct (close_spec _ _ _ _ E) as (N & I). split; [|split].
   - apply sort_nodup; auto.
   - apply sort_sorted.
@@ -526,98 +537,199 @@ Proof.
   - apply J.
 Qed.
 
-Definition cyc_err (order : list key) (e : err) : Prop :=
-  exists i, e = ErrCycle i /\ In i order /\ dict_get d i <> None /\ clos_trans _ Dr i i.
+Definition cyc_err (order : list key) (er : err) : Prop :=
+  exists k e, er = ErrCycle (did_of e) /\ In k order /\ dict_get d k = Some e /\
+              clos_trans _ Dr (did_of e) (did_of e).
 
 Lemma p3_fold : forall order V errs, Jinv V ->
-  exists V' errs', pass3 (length ks + 1) d order (V, errs) = Some (V', errs') /\ Jinv V' /\
-    (forall b, In b order -> dict_get d b <> None -> good b (V' b)) /\
+  exists V' errs', pass3 (length ks + 1) sc d order (V, errs) = Some (V', errs') /\ Jinv V' /\
+    (forall k e, In k order -> dict_get d k = Some e -> good (did_of e) (V' (did_of e))) /\
     (forall b, good b (V b) -> good b (V' b)) /\
-    (forall b, ~ In b order -> V' b = V b) /\
-    (forall e, In e errs' <-> In e errs \/ cyc_err order e).
+    (forall er, In er errs' <-> In er errs \/ cyc_err order er).
 Proof.
   unfold pass3. induction order as [|k order IH]; intros V errs J.
   - exists V, errs. simpl. split; [reflexivity|]. split; [exact J|].
-    split; [intros b []|]. split; [auto|]. split; [auto|].
-    intro e. split; [auto|]. intros [H|(i0 & _ & [] & _)]; auto.
+    split; [intros k e []|]. split; [auto|].
+    intro er. split; [auto|]. intros [H|(k0 & e0 & _ & [] & _)]; auto.
   - cbn [fold_left]. unfold state in *.
-    destruct (dict_get d k) as [en|] eqn:Ek.
-    + destruct (step_ok V errs k J) as (nv & Es & G); [congruence|].
-      rewrite Es. destruct (IH _ (cyc_errs k nv errs) (Jinv_step V k nv J G)) as (V' & errs' & E' & J' & G' & P' & U' & X').
+    destruct (dict_get d k) as [e|] eqn:Ek.
+    + destruct (step_ok V errs k e J Ek) as (nv & Es & G).
+      rewrite Es.
+      destruct (IH _ (cyc_errs (did_of e) nv errs) (Jinv_step V (did_of e) nv J G))
+        as (V' & errs' & E' & J' & G' & P' & X').
       exists V', errs'. split; [exact E'|]. split; [exact J'|].
-      split; [|split; [|split]].
-      * intros b [<-|Hb] Hd; auto. apply P'. rewrite vset_same. exact G.
-      * intros b Gb. apply P'. unfold vset. destruct (String.eqb_spec b k) as [->|N]; auto.
-      * intros b Hb. rewrite U' by (intro; apply Hb; right; auto).
-        apply vset_other. intro; subst; apply Hb; left; auto.
-      * intro e. rewrite X'. unfold cyc_errs.
-        assert (Hm : mem k nv = true <-> clos_trans _ Dr k k).
+      split; [|split].
+      * intros k' e' [<-|Hk] Hd; [|apply (G' k' e' Hk Hd)]. rewrite Ek in Hd. inversion Hd; subst e'.
+        apply P'. rewrite vset_same. exact G.
+      * intros b Gb. apply P'. unfold vset. destruct (String.eqb_spec b (did_of e)) as [->|N]; auto.
+      * intro er. rewrite X'. unfold cyc_errs.
+        assert (Hm : mem (did_of e) nv = true <-> clos_trans _ Dr (did_of e) (did_of e)).
         { rewrite mem_In. destruct G as (_ & _ & I). apply I. }
         split.
-        -- intros [H|(i & He & Hi & Hd & Hc)].
-           ++ destruct (mem k nv) eqn:M; auto. apply in_app_or in H. destruct H as [H|[<-|[]]]; auto.
-              right. exists k. repeat split; auto. left; auto. congruence. apply Hm; auto.
-           ++ right. exists i. repeat split; auto. right; auto.
-        -- intros [H|(i & He & [<-|Hi] & Hd & Hc)].
-           ++ left. destruct (mem k nv); auto. apply in_or_app; auto.
-           ++ left. apply Hm in Hc. rewrite Hc. apply in_or_app. right. left. auto.
-           ++ right. exists i. auto.
-    + assert (Es : pass3_step (length ks + 1) d (Some (V, errs)) k = Some (V, errs)).
+        -- intros [H|(k' & e' & He & Hi & Hd & Hc)].
+           ++ destruct (mem (did_of e) nv) eqn:M; auto. apply in_app_or in H. destruct H as [H|[<-|[]]]; auto.
+              right. exists k, e. repeat split; auto. left; auto. apply Hm; auto.
+           ++ right. exists k', e'. repeat split; auto. right; auto.
+        -- intros [H|(k' & e' & He & [<-|Hi] & Hd & Hc)].
+           ++ left. destruct (mem (did_of e) nv); auto. apply in_or_app; auto.
+           ++ rewrite Ek in Hd. inversion Hd; subst e'. left. apply Hm in Hc. rewrite Hc.
+              apply in_or_app. right. left. auto.
+           ++ right. exists k', e'. auto.
+    + assert (Es : pass3_step (length ks + 1) sc d (Some (V, errs)) k = Some (V, errs)).
       { unfold pass3_step. rewrite Ek. reflexivity. }
-      rewrite Es. destruct (IH V errs J) as (V' & errs' & E' & J' & G' & P' & U' & X').
+      rewrite Es. destruct (IH V errs J) as (V' & errs' & E' & J' & G' & P' & X').
       exists V', errs'. split; [exact E'|]. split; [exact J'|].
-      split; [|split; [|split]]; auto.
-      * intros b [<-|Hb] Hd; auto. congruence.
-      * intros b Hb. apply U'. intro; apply Hb; right; auto.
-      * intro e. rewrite X'. split.
-        -- intros [H|(i & He & Hi & Hd & Hc)]; auto. right. exists i. repeat split; auto. right; auto.
-        -- intros [H|(i & He & [<-|Hi] & Hd & Hc)]; auto. congruence. right. exists i. auto.
+      split; [|split]; auto.
+      * intros k' e' [<-|Hb] Hd; [congruence|apply (G' k' e' Hb Hd)].
+      * intro er. rewrite X'. split.
+        -- intros [H|(k' & e' & He & Hi & Hd & Hc)]; auto. right. exists k', e'. repeat split; auto. right; auto.
+        -- intros [H|(k' & e' & He & [<-|Hi] & Hd & Hc)]; auto. congruence. right. exists k', e'. auto.
 Qed.
 End Pass3.
 
-(* ---------------- wholeModule = include-reachability *)
-Section Whole.
-Variable sc : schema.
-
-Definition canon (x : module) : Prop := find_mod sc (m_sub x) (m_name x) = Some x.
-Definition inc (x y : module) : Prop := In y (included sc x).
-
-Lemma find_mod_some sub n m : find_mod sc sub n = Some m -> In m sc /\ m_sub m = sub /\ m_name m = n.
-Proof.
-  unfold find_mod. intro H. apply find_some in H. destruct H as (Hin & Hb).
-  apply andb_prop in Hb. destruct Hb as (H1 & H2).
-  apply Bool.eqb_prop in H1. apply String.eqb_eq in H2. auto.
-Qed.
-
-Lemma find_mod_canon sub n m : find_mod sc sub n = Some m -> canon m.
-Proof.
-  intro H. destruct (find_mod_some _ _ _ H) as (_ & <- & <-). exact H.
-Qed.
-
-Lemma same_mod_canon x y : canon x -> canon y -> same_mod x y = true -> x = y.
-Proof.
-  unfold canon, same_mod. intros Hx Hy H. apply andb_prop in H. destruct H as (H1 & H2).
-  apply Bool.eqb_prop in H1. apply String.eqb_eq in H2. rewrite H1, H2 in Hx. congruence.
-Qed.
+(* ---------------- the two maps of Modules *)
+(* what Modules.add guarantees: no two loaded nodes of the same kind, name and revision *)
+Definition wf_schema (sc : schema) : Prop :=
+  forall x y, In x sc -> In y sc -> same_mod x y = true -> x = y.
 
 Lemma same_mod_refl x : same_mod x x = true.
 Proof. unfold same_mod. rewrite Bool.eqb_reflx, String.eqb_refl. reflexivity. Qed.
 
-Lemma included_spec x y : In y (included sc x) <-> exists n, In n (m_includes x) /\ find_mod sc true n = Some y.
+Lemma same_mod_sym x y : same_mod x y = same_mod y x.
 Proof.
-  unfold included. rewrite in_flat_map. split.
-  - intros (n & Hn & Hy). exists n. split; auto. destruct (find_mod sc true n); simpl in Hy; [|tauto].
-    destruct Hy as [->|[]]. reflexivity.
-  - intros (n & Hn & Hy). exists n. split; auto. rewrite Hy. left; auto.
+  unfold same_mod. rewrite (String.eqb_sym (full_name x)). f_equal.
+  destruct (m_sub x), (m_sub y); reflexivity.
 Qed.
 
-Lemma included_canon x y : In y (included sc x) -> canon y.
-Proof. rewrite included_spec. intros (n & _ & H). eapply find_mod_canon; eauto. Qed.
+Lemma same_mod_trans x y z : same_mod x y = true -> same_mod y z = true -> same_mod x z = true.
+Proof.
+  unfold same_mod. intros H1 H2. apply andb_prop in H1. apply andb_prop in H2.
+  destruct H1 as (A1 & B1), H2 as (A2 & B2).
+  apply Bool.eqb_prop in A1. apply Bool.eqb_prop in A2. apply String.eqb_eq in B1. apply String.eqb_eq in B2.
+  rewrite A1, A2, B1, B2. rewrite Bool.eqb_reflx, String.eqb_refl. reflexivity.
+Qed.
+
+Section Registry.
+Variable sc : schema.
+
+Lemma latest_spec sub n : forall l best,
+  (forall o, best = Some o -> In o sc /\ m_sub o = sub /\ m_name o = n) -> incl l sc ->
+  forall m, fold_left (fun best m =>
+               if Bool.eqb (m_sub m) sub && (m_name m =? n) then
+                 match best with
+                 | None => Some m
+                 | Some o => if str_ltb (full_name o) (full_name m) then Some m else best
+                 end
+               else best) l best = Some m -> In m sc /\ m_sub m = sub /\ m_name m = n.
+Proof.
+  induction l as [|x l IH]; intros best Hb Hl m; cbn [fold_left].
+  - apply Hb.
+  - apply IH; [|intros y Hy; apply Hl; right; auto].
+    intros o. destruct (Bool.eqb (m_sub x) sub && (m_name x =? n)) eqn:E; [|apply Hb].
+    apply andb_prop in E. destruct E as (E1 & E2). apply Bool.eqb_prop in E1. apply String.eqb_eq in E2.
+    assert (Hx : In x sc /\ m_sub x = sub /\ m_name x = n) by (split; [apply Hl; left|]; auto).
+    destruct best as [o'|].
+    + destruct (str_ltb (full_name o') (full_name x)); [intro H; inversion H; subst; exact Hx|apply Hb].
+    + intro H; inversion H; subst; exact Hx.
+Qed.
+
+Lemma latest_in sub n m : latest sc sub n = Some m -> In m sc /\ m_sub m = sub /\ m_name m = n.
+Proof.
+  unfold latest. apply latest_spec; [discriminate|apply incl_refl].
+Qed.
+
+Lemma reg_get_in sub k m : reg_get sc sub k = Some m -> In m sc /\ m_sub m = sub.
+Proof.
+  unfold reg_get. destruct (latest sc sub k) as [o|] eqn:E.
+  - intro H; inversion H; subst. destruct (latest_in _ _ _ E) as (A & B & _). auto.
+  - intro H. apply find_some in H. destruct H as (A & B).
+    apply andb_prop in B. destruct B as (B & _). apply andb_prop in B. destruct B as (B & _).
+    apply Bool.eqb_prop in B. auto.
+Qed.
+
+Lemma reg_get_key sub k m : reg_get sc sub k = Some m -> In k (reg_keys sc sub).
+Proof.
+  unfold reg_get, reg_keys. rewrite in_flat_map. destruct (latest sc sub k) as [o|] eqn:E.
+  - intro H; inversion H; subst. destruct (latest_in _ _ _ E) as (A & B & C).
+    exists m. split; auto. rewrite B, Bool.eqb_reflx. left. exact C.
+  - intro H. apply find_some in H. destruct H as (A & B).
+    apply andb_prop in B. destruct B as (B & B3). apply andb_prop in B. destruct B as (B1 & B2).
+    exists m. split; auto. rewrite B1. right. apply negb_true_iff in B2. rewrite B2.
+    left. apply String.eqb_eq. exact B3.
+Qed.
+
+Lemma find_module_in sub n dt m : find_module sc sub n dt = Some m -> In m sc /\ m_sub m = sub.
+Proof.
+  unfold find_module. destruct (reg_get sc sub (if dt =? "" then n else with_rev n dt)) as [o|] eqn:E.
+  - intro H; inversion H; subst. eapply reg_get_in; eauto.
+  - apply reg_get_in.
+Qed.
+
+(* ---------------- sortedModules + visited *)
+Lemma visit_once_in seen l x : In x (visit_once seen l) -> In x l.
+Proof.
+  revert seen. induction l as [|y l IH]; intros seen; simpl; auto.
+  destruct (is_seen y seen); [intro H; right; eauto|]. intros [H|H]; [left; auto|right; eauto].
+Qed.
+
+Lemma is_seen_spec x l : is_seen x l = true <-> exists y, In y l /\ same_mod x y = true.
+Proof. unfold is_seen. apply existsb_exists. Qed.
+
+Lemma visit_once_complete : forall l seen x, In x l ->
+  is_seen x seen = true \/ exists y, In y (visit_once seen l) /\ same_mod x y = true.
+Proof.
+  induction l as [|z l IH]; intros seen x Hx; [destruct Hx|]. simpl.
+  destruct (is_seen z seen) eqn:Ez.
+  - destruct Hx as [->|Hx]; auto.
+  - destruct Hx as [->|Hx].
+    + right. exists x. split; [left; auto|apply same_mod_refl].
+    + destruct (IH (z :: seen) x Hx) as [H|(y & Hy & Hs)].
+      * simpl in H. apply orb_prop in H. destruct H as [H|H]; auto.
+        right. exists z. split; [left; auto|exact H].
+      * right. exists y. split; [right; auto|exact Hs].
+Qed.
+
+Hypothesis Hwf : wf_schema sc.
+
+Lemma sorted_modules_spec sub md : In md (sorted_modules sc sub) <-> exists k, reg_get sc sub k = Some md.
+Proof.
+  unfold sorted_modules. split.
+  - intro H. apply visit_once_in in H. apply in_flat_map in H. destruct H as (k & _ & H).
+    destruct (reg_get sc sub k) as [m|] eqn:E; [|destruct H]. destruct H as [<-|[]]. eauto.
+  - intros (k & Hk).
+    assert (Hin : In md (flat_map (fun k => match reg_get sc sub k with Some m => [m] | None => [] end)
+                                  (stable_sort str_ltb (reg_keys sc sub)))).
+    { apply in_flat_map. exists k. split.
+      - apply (Permutation_in k (sort_perm str_ltb (reg_keys sc sub))). eapply reg_get_key; eauto.
+      - rewrite Hk. left; auto. }
+    destruct (visit_once_complete _ [] md Hin) as [H|(y & Hy & Hs)]; [discriminate|].
+    assert (y = md); [|subst; exact Hy].
+    symmetry. apply Hwf; auto.
+    + apply (reg_get_in _ _ _ Hk).
+    + apply visit_once_in in Hy. apply in_flat_map in Hy. destruct Hy as (k' & _ & Hy).
+      destruct (reg_get sc sub k') as [m|] eqn:E; [|destruct Hy]. destruct Hy as [<-|[]].
+      apply (reg_get_in _ _ _ E).
+Qed.
+
+(* ---------------- wholeModule = include-reachability *)
+Definition inc (x y : module) : Prop := In y (included sc x).
+
+Lemma included_spec x y : In y (included sc x) <->
+  exists n dt, In (n, dt) (m_includes x) /\ find_module sc true n dt = Some y.
+Proof.
+  unfold included. rewrite in_flat_map. split.
+  - intros ([n dt] & Hn & Hy). exists n, dt. split; auto. cbn [fst snd] in Hy.
+    destruct (find_module sc true n dt); simpl in Hy; [|tauto]. destruct Hy as [->|[]]. reflexivity.
+  - intros (n & dt & Hn & Hy). exists (n, dt). split; auto. cbn [fst snd]. rewrite Hy. left; auto.
+Qed.
+
+Lemma included_in x y : In y (included sc x) -> In y sc.
+Proof. rewrite included_spec. intros (n & dt & _ & H). eapply find_module_in; eauto. Qed.
 
 Lemma included_length x : length (included sc x) <= length (m_includes x).
 Proof.
   unfold included. induction (m_includes x) as [|n l IH]; simpl; auto.
-  rewrite app_length. destruct (find_mod sc true n); simpl; lia.
+  rewrite app_length. destruct (find_module sc true (fst n) (snd n)); simpl; lia.
 Qed.
 
 Lemma filter_len {A} (p : A -> bool) l : length (filter p l) <= length l.
@@ -652,11 +764,8 @@ Qed.
 Lemma unseen_nil_total l : unseen_incl l [] = total_includes l.
 Proof. induction l; simpl; auto. Qed.
 
-Lemma canon_in x : canon x -> In x sc.
-Proof. intro H. apply (find_mod_some _ _ _ H). Qed.
-
 Lemma whole_loop_spec : forall f seen q,
-  length q + unseen_incl sc seen <= f -> (forall x, In x q -> canon x) ->
+  length q + unseen_incl sc seen <= f -> (forall x, In x q -> In x sc) ->
   (forall y, In y q -> is_seen y seen = true \/ In y (whole_loop f sc seen q)) /\
   (forall x, In x (whole_loop f sc seen q) -> forall z, In z (included sc x) ->
              is_seen z seen = true \/ In z (whole_loop f sc seen q)) /\
@@ -674,75 +783,36 @@ Proof.
     + set (new := filter (fun y => negb (is_seen y (x :: seen))) (included sc x)).
       assert (Hnew : length new <= length (m_includes x)).
       { unfold new. eapply Nat.le_trans; [apply filter_len|apply included_length]. }
+      assert (Hx : In x sc) by (apply Hc; left; auto).
       destruct (IH (x :: seen) (q ++ new)) as (A & B & C).
-      { rewrite app_length. pose proof (unseen_drop sc x seen (canon_in x (Hc x (or_introl eq_refl))) Es).
-        simpl in Hf. lia. }
+      { rewrite app_length. pose proof (unseen_drop sc x seen Hx Es). simpl in Hf. lia. }
       { intros y Hy. apply in_app_or in Hy. destruct Hy as [Hy|Hy].
         - apply Hc; right; auto.
-        - unfold new in Hy. apply filter_In in Hy. eapply included_canon. apply Hy. }
+        - unfold new in Hy. apply filter_In in Hy. eapply included_in. apply Hy. }
       fold new in A, B, C. fold new.
-      assert (Hseen : forall z, is_seen z (x :: seen) = true ->
-                is_seen z seen = true \/ In z (x :: whole_loop f sc (x :: seen) (q ++ new)) \/ same_mod z x = true).
-      { intros z Hz. rewrite is_seen_cons in Hz. apply orb_prop in Hz. tauto. }
       split; [|split].
       * intros y [<-|Hy]; [right; left; auto|].
         destruct (A y (in_or_app _ _ _ (or_introl Hy))) as [H|H]; [|right; right; auto].
         rewrite is_seen_cons in H. apply orb_prop in H. destruct H as [H|H]; auto.
-        right. left. symmetry. apply same_mod_canon; auto. apply Hc; right; auto. apply Hc; left; auto.
+        right. left. symmetry. apply Hwf; auto. apply Hc; right; auto.
       * intros w [<-|Hw] z Hz.
         -- destruct (is_seen z (x :: seen)) eqn:Ez.
            ++ rewrite is_seen_cons in Ez. apply orb_prop in Ez. destruct Ez as [Ez|Ez]; auto.
-              right. left. symmetry. apply same_mod_canon; auto.
-              eapply included_canon; eauto. apply Hc; left; auto.
+              right. left. symmetry. apply Hwf; auto. eapply included_in; eauto.
            ++ assert (Hn : In z new). { unfold new. apply filter_In. split; auto. rewrite Ez. reflexivity. }
               destruct (A z (in_or_app _ _ _ (or_intror Hn))) as [H|H]; [congruence|]. right. right. auto.
         -- destruct (B w Hw z Hz) as [H|H]; [|right; right; auto].
            rewrite is_seen_cons in H. apply orb_prop in H. destruct H as [H|H]; auto.
-           right. left. symmetry. apply same_mod_canon; auto.
-           eapply included_canon; eauto. apply Hc; left; auto.
+           right. left. symmetry. apply Hwf; auto. eapply included_in; eauto.
       * intros w [<-|Hw]. { exists x. split; [left; auto|apply rt_refl]. }
         destruct (C w Hw) as (y & Hy & Hr). apply in_app_or in Hy. destruct Hy as [Hy|Hy].
         -- exists y. split; auto. right; auto.
         -- exists x. split; [left; auto|]. eapply rt_trans; [apply rt_step|exact Hr].
            unfold new in Hy. apply filter_In in Hy. apply Hy.
 Qed.
-End Whole.
+End Registry.
 
-(* ---------------- wholeModule and part_of *)
-Lemma loaded_canon sc md : loaded sc md -> canon sc md.
-Proof. intros (Hs & Hf). unfold canon. rewrite Hs. exact Hf. Qed.
-
-Lemma whole_module_spec sc md : loaded sc md -> forall m, In m (whole_module sc md) <-> part_of sc md m.
-Proof.
-  intros L. pose proof (loaded_canon _ _ L) as Cn. destruct L as (Hs & Hf).
-  unfold whole_module. rewrite Hs.
-  destruct (whole_loop_spec sc (whole_fuel sc md) [] [md]) as (A & B & C).
-  { simpl. rewrite unseen_nil_total. unfold whole_fuel. lia. }
-  { intros x [<-|[]]. exact Cn. }
-  intro m. split.
-  - intro Hm. destruct (C m Hm) as (y & [<-|[]] & Hr).
-    clear Hm. apply clos_rt_rtn1 in Hr. induction Hr as [|u v Huv _ IH]; [constructor|].
-    unfold inc in Huv. apply included_spec in Huv. destruct Huv as (n & Hn & Hv).
-    eapply part_incl; eauto.
-  - induction 1 as [|m n s _ IH Hn Hs'].
-    + destruct (A md (or_introl eq_refl)) as [H|H]; [discriminate|exact H].
-    + destruct (B m IH s) as [H|H]; [|discriminate|exact H].
-      apply included_spec. exists n. auto.
-Qed.
-
-Lemma module_names_spec sc n md :
-  In n (module_names sc) /\ find_mod sc false n = Some md <-> loaded sc md /\ n = m_name md.
-Proof.
-  split.
-  - intros (_ & Hf). destruct (find_mod_some sc _ _ _ Hf) as (Hin & Hs & Hn). subst n.
-    split; [split|]; auto.
-  - intros ((Hs & Hf) & ->). split; auto.
-    unfold module_names. apply in_map. apply filter_In. split.
-    + apply (find_mod_some sc _ _ _ Hf).
-    + rewrite Hs. reflexivity.
-Qed.
-
-(* ---------------- the dictionary *)
+(* ---------------- dictionaries *)
 Lemma dict_get_set d k e k' :
   dict_get (dict_set d k e) k' = if k =? k' then Some e else dict_get d k'.
 Proof.
@@ -754,23 +824,6 @@ Proof.
       destruct (String.eqb_spec k k'); [congruence|reflexivity].
 Qed.
 
-Definition set_all (d : dict) (l : list (key * entry)) : dict :=
-  fold_left (fun d ke => dict_set d (fst ke) (snd ke)) l d.
-
-Lemma set_all_get : forall l d k,
-  (dict_get (set_all d l) k = dict_get d k /\ forall e, ~ In (k, e) l) \/
-  (exists e, In (k, e) l /\ dict_get (set_all d l) k = Some e).
-Proof.
-  induction l as [|[k0 e0] l IH]; intros d k; cbn [set_all fold_left].
-  - left. split; auto.
-  - fold (set_all (dict_set d k0 e0) l). cbn [fst snd].
-    destruct (IH (dict_set d k0 e0) k) as [(H1 & H2)|(e & H1 & H2)].
-    + rewrite dict_get_set in H1. destruct (String.eqb_spec k0 k) as [->|N].
-      * right. exists e0. split; [left; auto|exact H1].
-      * left. split; auto. intros e [H|H]; [congruence|]. eapply H2; eauto.
-    + right. exists e. split; [right; auto|exact H2].
-Qed.
-
 Lemma dict_keys_get d k : In k (dict_keys d) <-> dict_get d k <> None.
 Proof.
   unfold dict_keys. induction d as [|[k0 e0] r IH]; cbn [map dict_get In fst].
@@ -780,86 +833,31 @@ Proof.
     + rewrite <- IH. split; [intros [H|H]; [congruence|auto]|auto].
 Qed.
 
-Definition ident_entries (sc : schema) (m : module) : list (key * entry) :=
-  map (fun i => (key_of sc m i, (m, i))) (m_idents m).
-Definition module_entries (sc : schema) (md : module) : list (key * entry) :=
-  flat_map (ident_entries sc) (whole_module sc md).
-Definition insertions (sc : schema) (names : list string) : list (key * entry) :=
-  flat_map (fun n => match find_mod sc false n with None => [] | Some md => module_entries sc md end) names.
-
-Lemma fold_left_flat_map {A B C} (f : A -> C -> A) (gg : B -> list C) l a :
-  fold_left f (flat_map gg l) a = fold_left (fun a x => fold_left f (gg x) a) l a.
+Lemma dict_get_in d k e : dict_get d k = Some e -> In (k, e) d.
 Proof.
-  revert a. induction l as [|x l IH]; intro a; simpl; auto. rewrite fold_left_app. apply IH.
+  induction d as [|[k0 e0] r IH]; cbn [dict_get]; [discriminate|].
+  destruct (String.eqb_spec k0 k) as [->|N].
+  - intro H; inversion H; subst. left; auto.
+  - intro H. right. auto.
 Qed.
 
-Lemma fold_left_ext {A B} (f1 f2 : A -> B -> A) l a :
-  (forall a x, f1 a x = f2 a x) -> fold_left f1 l a = fold_left f2 l a.
-Proof. intro H. revert a. induction l; intro a0; simpl; auto. rewrite H. auto. Qed.
-
-Lemma add_module_idents_eq sc d m : add_module_idents sc d m = set_all d (ident_entries sc m).
+(* every declaration filed in the dictionary can be looked up by its id *)
+Lemma decl_get_of d k e : dict_get d k = Some e ->
+  exists e', decl_get d (did_of e) = Some e' /\ did_of e' = did_of e.
 Proof.
-  unfold add_module_idents, set_all, ident_entries.
-  generalize (m_idents m) as l. intro l. revert d. induction l as [|i l IH]; intro d; simpl; auto.
+  intro H. apply dict_get_in in H. unfold decl_get.
+  destruct (find (fun e0 => did_of e0 =? did_of e) (map snd d)) as [e'|] eqn:E.
+  - exists e'. split; auto. apply find_some in E. apply String.eqb_eq. apply E.
+  - exfalso. assert (Hin : In e (map snd d)) by (apply in_map_iff; exists (k, e); auto).
+    pose proof (find_none _ _ E e Hin) as F. cbv beta in F. rewrite String.eqb_refl in F. discriminate.
 Qed.
 
-Lemma build_dict_eq o sc : build_dict o sc = set_all [] (insertions sc (o (module_names sc))).
-Proof.
-  unfold build_dict, set_all, insertions. rewrite fold_left_flat_map.
-  apply fold_left_ext. intros d n. destruct (find_mod sc false n) as [md|]; [|reflexivity].
-  unfold module_entries. rewrite fold_left_flat_map.
-  apply fold_left_ext. intros d' m. apply add_module_idents_eq.
-Qed.
+Lemma decl_get_did d x e : decl_get d x = Some e -> did_of e = x.
+Proof. unfold decl_get. intro H. apply find_some in H. apply String.eqb_eq. apply H. Qed.
 
 Lemma oracle_in o (l : list string) x : is_oracle o -> (In x (o l) <-> In x l).
 Proof.
   intro H. split; apply Permutation_in; [apply Permutation_sym|]; apply H.
-Qed.
-
-Lemma insertions_spec sc o k e : is_oracle o ->
-  (In (k, e) (insertions sc (o (module_names sc))) <-> declared sc k e).
-Proof.
-  intro Ho. unfold insertions. rewrite in_flat_map. split.
-  - intros (n & Hn & H). rewrite (oracle_in o _ _ Ho) in Hn.
-    destruct (find_mod sc false n) as [md|] eqn:Ef; [|destruct H].
-    destruct (proj1 (module_names_spec sc n md) (conj Hn Ef)) as (L & ->).
-    unfold module_entries in H. apply in_flat_map in H. destruct H as (m & Hm & H).
-    unfold ident_entries in H. apply in_map_iff in H. destruct H as (i & Hi & Hin).
-    inversion Hi; subst. split; [|split]; cbn [fst snd]; auto.
-    exists md. split; auto. apply (whole_module_spec sc md L). exact Hm.
-  - destruct e as [m i]. intros ((md & L & P) & Hi & Hk). cbn [fst snd] in *.
-    exists (m_name md).
-    destruct (proj2 (module_names_spec sc (m_name md) md) (conj L eq_refl)) as (Hn & Hf).
-    split; [apply (oracle_in o _ _ Ho); exact Hn|]. rewrite Hf.
-    unfold module_entries. apply in_flat_map. exists m. split.
-    + apply (whole_module_spec sc md L). exact P.
-    + unfold ident_entries. apply in_map_iff. exists i. split; auto. subst k. reflexivity.
-Qed.
-
-(* what the dictionary holds, whatever the order in which ms.Modules was walked *)
-Lemma dict_sound sc o k e : is_oracle o -> dict_get (build_dict o sc) k = Some e -> declared sc k e.
-Proof.
-  intros Ho H. rewrite build_dict_eq in H.
-  destruct (set_all_get (insertions sc (o (module_names sc))) [] k) as [(H1 & _)|(e' & H1 & H2)].
-  - rewrite H in H1. discriminate.
-  - rewrite H in H2. inversion H2; subst. apply (insertions_spec sc o k e' Ho). exact H1.
-Qed.
-
-Lemma dict_complete sc o k e : is_oracle o -> declared sc k e ->
-  exists e', dict_get (build_dict o sc) k = Some e' /\ declared sc k e'.
-Proof.
-  intros Ho H. apply (insertions_spec sc o k e Ho) in H. rewrite build_dict_eq.
-  destruct (set_all_get (insertions sc (o (module_names sc))) [] k) as [(_ & H2)|(e' & H1 & H2)].
-  - exfalso. eapply H2; eauto.
-  - exists e'. split; auto. apply (insertions_spec sc o k e' Ho). exact H1.
-Qed.
-
-Lemma dict_spec sc o : is_oracle o -> consistent sc ->
-  forall k e, dict_get (build_dict o sc) k = Some e <-> declared sc k e.
-Proof.
-  intros Ho Hc k e. split; [apply dict_sound; auto|].
-  intro H. destruct (dict_complete sc o k e Ho H) as (e' & H1 & H2).
-  rewrite H1. f_equal. eapply Hc; eauto.
 Qed.
 
 (* ---------------- findIdentityBase and resolves *)
@@ -909,51 +907,50 @@ Proof.
   - rewrite split_at_colon; auto.
 Qed.
 
-Lemma import_target_spec imps pfx n : import_target imps pfx = Some n <-> first_import imps pfx n.
+Lemma import_target_spec imps pfx n dt : import_target imps pfx = Some (n, dt) <-> first_import imps pfx n dt.
 Proof.
   split.
-  - induction imps as [|[p' n'] r IH]; simpl; [discriminate|].
+  - induction imps as [|[[p' n'] d'] r IH]; simpl; [discriminate|].
     destruct (String.eqb_spec pfx p') as [->|N].
     + intro H; inversion H; subst. constructor.
     + intro H. constructor; auto.
-  - induction 1 as [p n r|p' n' r p n N _ IH]; simpl.
+  - induction 1 as [p n dt r|p' n' d' r p n dt N _ IH]; simpl.
     + rewrite String.eqb_refl. reflexivity.
     + destruct (String.eqb_spec p p'); [congruence|exact IH].
 Qed.
 
-Lemma has_key_defined d k : has_key d k = true <-> defined (dict_get d) k.
+Lemma dict_find_spec d l nm e : dict_find d l nm = Some e <-> found (dict_get d) nm l e.
 Proof.
-  unfold has_key, defined. destruct (dict_get d k).
-  - split; [intros _; discriminate|reflexivity].
-  - split; [discriminate|intro H; exfalso; apply H; reflexivity].
+  split.
+  - induction l as [|o r IH]; simpl; [discriminate|].
+    destruct (dict_get d (identity_key o nm)) as [e0|] eqn:E.
+    + intro H; inversion H; subst. constructor; auto.
+    + intro H. apply found_later; auto.
+  - induction 1 as [o r e H|o r e H _ IH]; simpl; rewrite H; auto.
 Qed.
 
-Lemma fib_spec sc d md s b :
-  find_identity_base sc d md s = Some b <-> resolves sc (dict_get d) md s b.
+Lemma fib_spec sc d t md s e :
+  find_identity_base sc d t md s = Some e <-> resolves sc (dict_get d) (owners_get t) md s e.
 Proof.
   unfold find_identity_base. split.
   - pose proof (get_prefix_splits s) as Hs. destruct (get_prefix s) as [pfx nm]. cbn [fst snd] in Hs.
     destruct ((pfx =? "") || (pfx =? m_prefix md)) eqn:El.
-    + destruct (has_key d (mk_key (owner_name sc md) nm)) eqn:Ek; [|discriminate].
-      intro H; inversion H; subst. exists pfx, nm, (owner_name sc md).
-      split; auto. split; [|split; auto; apply has_key_defined; auto].
-      apply tm_local. apply orb_prop in El. destruct El as [E|E]; apply String.eqb_eq in E; auto.
+    + intro H. exists pfx, nm, (owners_get t md). split; auto. split; [|apply dict_find_spec; auto].
+      apply sl_local. apply orb_prop in El. destruct El as [E|E]; apply String.eqb_eq in E; auto.
     + apply orb_false_elim in El. destruct El as (E1 & E2).
       apply String.eqb_neq in E1. apply String.eqb_neq in E2.
-      destruct (import_target (m_imports md) pfx) as [n|] eqn:Ei; [|discriminate].
-      destruct (find_mod sc false n) as [ext|] eqn:Ef; [|discriminate].
-      destruct (has_key d (mk_key (m_name ext) nm)) eqn:Ek; [|discriminate].
-      intro H; inversion H; subst. exists pfx, nm, (m_name ext).
-      split; auto. split; [|split; auto; apply has_key_defined; auto].
-      eapply tm_import; eauto. apply import_target_spec; auto.
-  - intros (pfx & nm & mn & Hs & Ht & -> & Hd).
-    rewrite (splits_get_prefix _ _ _ Hs). apply has_key_defined in Hd.
-    destruct Ht as [Hl|n ext N1 N2 Hi Hf].
+      destruct (import_target (m_imports md) pfx) as [[n dt]|] eqn:Ei; [|discriminate].
+      destruct (find_module sc false n dt) as [ext|] eqn:Ef; [|discriminate].
+      intro H. exists pfx, nm, (owners_get t ext). split; auto. split; [|apply dict_find_spec; auto].
+      eapply sl_import; eauto. apply import_target_spec; auto.
+  - intros (pfx & nm & l & Hs & Ht & Hf).
+    rewrite (splits_get_prefix _ _ _ Hs). apply dict_find_spec in Hf.
+    destruct Ht as [Hl|n dt ext N1 N2 Hi Hfm].
     + assert (El : (pfx =? "") || (pfx =? m_prefix md) = true).
       { destruct Hl as [->| ->]; [reflexivity|]. rewrite String.eqb_refl. apply orb_true_r. }
-      rewrite El, Hd. reflexivity.
+      rewrite El. exact Hf.
     + apply String.eqb_neq in N1. apply String.eqb_neq in N2. rewrite N1, N2. cbn [orb].
-      apply import_target_spec in Hi. rewrite Hi, Hf, Hd. reflexivity.
+      apply import_target_spec in Hi. rewrite Hi, Hfm. exact Hf.
 Qed.
 
 Lemma clos_trans_ext {A} (R1 R2 : relation A) : (forall x y, R1 x y <-> R2 x y) ->
@@ -966,50 +963,39 @@ Proof.
   - eapply t_trans; eauto.
 Qed.
 
+Lemma tc_first {A} (R : relation A) x y : clos_trans _ R x y -> exists z, R x z.
+Proof. induction 1 as [a b' H|a b' c' _ IH1 _ _]; eauto. Qed.
+Lemma tc_final {A} (R : relation A) x y : clos_trans _ R x y -> exists z, R z y.
+Proof. induction 1 as [a b' H|a b' c' _ _ _ IH2]; eauto. Qed.
+
 Lemma nil_iff {A} (l : list A) : l = [] <-> forall e, ~ In e l.
 Proof.
   split; [intros -> e []|]. destruct l as [|x l]; auto. intro H. exfalso. apply (H x). left; auto.
 Qed.
 
 (* ---------------- strict order of the spec *)
-Lemma le_strict d a b : le_of (id_less d) a b -> a <> b -> key_lt (dict_get d) a b.
+Lemma str_ltb_lt a b : str_ltb a b = true <-> str_lt a b.
+Proof. unfold str_ltb, str_lt. destruct (String.compare a b); split; congruence. Qed.
+
+Lemma lex_ltb_lt : forall a b, lex_ltb a b = true <-> lex_lt a b.
 Proof.
-  unfold le_of, id_less, key_lt, str_lt.
-  change (name_of (dict_get d) a) with (ident_name d a).
-  change (name_of (dict_get d) b) with (ident_name d b).
-  destruct (String.eqb_spec (ident_name d b) (ident_name d a)) as [E|N]; cbn [negb]; intros H Nab.
-  - right. split; auto. pose proof (str_ltb_conn _ _ H (fun F => Nab (eq_sym F))) as H'.
-    unfold str_ltb in H'. destruct (String.compare a b); try discriminate; auto.
-  - left. pose proof (str_ltb_conn _ _ H N) as H'.
-    unfold str_ltb in H'. destruct (String.compare (ident_name d a) (ident_name d b)); try discriminate; auto.
+  induction a as [|x a IH]; intros [|y b]; simpl; try (split; [discriminate|tauto]); try tauto.
+  destruct (String.eqb_spec x y) as [->|N]; cbn [negb].
+  - rewrite IH. split; [auto|]. intros [H|(_ & H)]; auto.
+    apply str_ltb_lt in H. rewrite str_ltb_irrefl in H. discriminate.
+  - rewrite str_ltb_lt. split; [auto|]. intros [H|(H & _)]; [auto|contradiction].
 Qed.
 
-Lemma SS_strict d l : NoDup l -> StronglySorted (le_of (id_less d)) l -> sorted_keys (dict_get d) l.
-Proof.
-  unfold sorted_keys. induction l as [|a l IH]; intros N S; [constructor|].
-  inversion N as [|? ? Na N']; subst. inversion S as [|? ? S' F]; subst.
-  constructor; auto. rewrite Forall_forall in *. intros x Hx.
-  apply le_strict; auto. intro; subst; contradiction.
-Qed.
+Lemma key_lt_iff sc dl a b : key_lt sc dl a b <-> lex_ltb (sort_key_of sc dl a) (sort_key_of sc dl b) = true.
+Proof. unfold key_lt. symmetry. apply lex_ltb_lt. Qed.
 
-Lemma str_lt_irrefl a : ~ str_lt a a.
-Proof.
-  unfold str_lt. intro H. pose proof (String.compare_antisym a a) as H'. rewrite H in H'. discriminate.
-Qed.
+Lemma key_lt_irrefl sc dl a : ~ key_lt sc dl a a.
+Proof. rewrite key_lt_iff. rewrite lex_irrefl. discriminate. Qed.
 
-Lemma key_lt_irrefl g a : ~ key_lt g a a.
-Proof. intros [H|(_ & H)]; eapply str_lt_irrefl; eauto. Qed.
+Lemma key_lt_trans sc dl a b c : key_lt sc dl a b -> key_lt sc dl b c -> key_lt sc dl a c.
+Proof. rewrite !key_lt_iff. apply lex_trans. Qed.
 
-Lemma key_lt_trans g a b c : key_lt g a b -> key_lt g b c -> key_lt g a c.
-Proof.
-  unfold key_lt, str_lt. intros [H1|(E1 & H1)] [H2|(E2 & H2)].
-  - left. eapply str_lt_trans; eauto.
-  - left. rewrite <- E2. auto.
-  - left. rewrite E1. auto.
-  - right. split; [congruence|]. eapply str_lt_trans; eauto.
-Qed.
-
-Lemma strict_sorted_unique g : forall l1 l2, sorted_keys g l1 -> sorted_keys g l2 ->
+Lemma strict_sorted_unique sc dl : forall l1 l2, sorted_keys sc dl l1 -> sorted_keys sc dl l2 ->
   (forall x, In x l1 <-> In x l2) -> l1 = l2.
 Proof.
   unfold sorted_keys. induction l1 as [|a l1 IH]; intros l2 S1 S2 Heq.
@@ -1020,384 +1006,701 @@ Proof.
     assert (a = b).
     { destruct (proj1 (Heq a) (or_introl eq_refl)) as [E|Hin]; [symmetry; exact E|].
       destruct (proj2 (Heq b) (or_introl eq_refl)) as [E|Hin']; [exact E|].
-      exfalso. apply (key_lt_irrefl g a). eapply key_lt_trans; [apply F1; exact Hin'|apply F2; exact Hin]. }
+      exfalso. apply (key_lt_irrefl sc dl a). eapply key_lt_trans; [apply F1; exact Hin'|apply F2; exact Hin]. }
     subst b. f_equal. apply IH; auto.
     intro x. split; intro Hx.
     + destruct (proj1 (Heq x) (or_intror Hx)) as [E|]; auto. subst.
-      exfalso. apply (key_lt_irrefl g x). apply F1; auto.
+      exfalso. apply (key_lt_irrefl sc dl x). apply F1; auto.
     + destruct (proj2 (Heq x) (or_intror Hx)) as [E|]; auto. subst.
-      exfalso. apply (key_lt_irrefl g x). apply F2; auto.
+      exfalso. apply (key_lt_irrefl sc dl x). apply F2; auto.
 Qed.
 
-Lemma sorted_keys_nodup g l : sorted_keys g l -> NoDup l.
+Lemma sorted_keys_nodup sc dl l : sorted_keys sc dl l -> NoDup l.
 Proof.
   unfold sorted_keys. induction 1 as [|a l S IH F]; constructor; auto.
-  intro H. rewrite Forall_forall in F. apply (key_lt_irrefl g a). apply F; auto.
+  intro H. rewrite Forall_forall in F. apply (key_lt_irrefl sc dl a). apply F; auto.
+Qed.
+
+(* a declaration that is filed in the dictionary *)
+Definition filed_decl (d : dict) (x : key) : Prop := exists k e, dict_get d k = Some e /\ x = did_of e.
+
+Lemma mk_key_eq a n a' n' : a = a' -> n = n' -> mk_key a n = mk_key a' n'.
+Proof. intros -> ->. reflexivity. Qed.
+
+Lemma sort_key_inj sc d x y : filed_decl d x -> filed_decl d y ->
+  sort_key sc d x = sort_key sc d y -> x = y.
+Proof.
+  intros (k & e & Hk & ->) (k' & e' & Hk' & ->).
+  destruct (decl_get_of d k e Hk) as (ex & Ex & Dx). destruct (decl_get_of d k' e' Hk') as (ey & Ey & Dy).
+  unfold sort_key. rewrite Ex, Ey. destruct ex as [mx ix], ey as [my iy]. intro H. inversion H as [[H1 H2 H3]].
+  rewrite <- Dx, <- Dy. unfold did_of. cbn [fst snd]. apply mk_key_eq; auto.
+Qed.
+
+Lemma le_strict sc d a b : filed_decl d a -> filed_decl d b ->
+  le_of (id_less sc d) a b -> a <> b -> key_lt sc (decl_get d) a b.
+Proof.
+  intros Pa Pb H N. apply key_lt_iff. change (sort_key_of sc (decl_get d)) with (sort_key sc d).
+  unfold le_of, id_less in H.
+  destruct (lex_ltb (sort_key sc d a) (sort_key sc d b)) eqn:E; auto.
+  exfalso. apply N. apply (sort_key_inj sc d); auto. apply lex_conn; auto.
+Qed.
+
+Lemma SS_strict sc d l : Forall (filed_decl d) l -> NoDup l -> StronglySorted (le_of (id_less sc d)) l ->
+  sorted_keys sc (decl_get d) l.
+Proof.
+  unfold sorted_keys. induction l as [|a l IH]; intros P N S; [constructor|].
+  inversion P as [|? ? Pa P']; subst.
+  inversion N as [|? ? Na N']; subst. inversion S as [|? ? S' F]; subst.
+  constructor; auto. rewrite Forall_forall in *. intros x Hx.
+  apply le_strict; auto. intro; subst; contradiction.
 Qed.
 
 (* ---------------- the direct-children relation is the edge relation *)
 Section Master.
 Variable sc : schema.
 Variable d : dict.
+Variable t : owners_table.
 Let g := dict_get d.
+Let ow := owners_get t.
+Let dl := decl_get d.
 Let ks := dict_keys d.
-
-Lemma bases_res_edge i b : g i <> None /\ In (Some b) (bases_res sc d i) <-> edge sc g i b.
-Proof.
-  unfold bases_res, edge. fold g. split.
-  - intros (_ & H). destruct (g i) as [[md id]|]; [|destruct H].
-    apply in_map_iff in H. destruct H as (s & Hs & Hin). exists md, id, s. split; auto. split; auto.
-    apply fib_spec. exact Hs.
-  - intros (md & id & s & Hg & Hin & Hr). rewrite Hg. split; [congruence|].
-    apply in_map_iff. exists s. split; auto. apply fib_spec. exact Hr.
-Qed.
+Let U := map (fun ke : key * entry => did_of (snd ke)) d.
 
 Variable o2 o3 : list string -> list string.
 Hypothesis Ho2 : is_oracle o2.
 Hypothesis Ho3 : is_oracle o3.
 
-Let st2 := pass2 sc d (o2 ks).
+Let st2 := pass2 sc d t (o2 ks).
 Let V0 := fst st2.
 
-Lemma V0_edge b i : In i (V0 b) <-> edge sc g i b.
+Lemma in_order o k : is_oracle o -> (In k (o ks) <-> g k <> None).
+Proof. intro Ho. rewrite (oracle_in o _ _ Ho). unfold ks, g. apply dict_keys_get. Qed.
+
+Lemma V0_edge b x : In x (V0 b) <-> edge sc g ow x b.
 Proof.
-  unfold V0, st2. rewrite (proj1 (pass2_spec sc d (o2 ks))). rewrite (oracle_in o2 _ _ Ho2).
-  unfold ks. rewrite dict_keys_get. apply bases_res_edge.
+  unfold V0, st2. rewrite (proj1 (pass2_spec sc d t (o2 ks))). unfold direct, edge, declares. split.
+  - intros (k & e & s & be & Hk & Hg & -> & Hs & Hf & <-).
+    exists e, s, be. split; [split; [reflexivity|exists k; exact Hg]|]. split; auto. split; auto.
+    apply fib_spec. exact Hf.
+  - intros (ex & s & eb & (Hd & k & Hg) & Hs & Hr & ->).
+    exists k, ex, s, eb. split. { apply (in_order o2 k Ho2). fold g. congruence. }
+    split; auto. split; auto. split; auto. split; auto. apply fib_spec. exact Hr.
 Qed.
 
-Lemma V0ks x c : In c (V0 x) -> In c ks.
+Lemma found_filed nm l e : found g nm l e -> filed_decl d (did_of e).
+Proof. induction 1 as [o r e H|o r e _ _ IH]; auto. exists (identity_key o nm), e. auto. Qed.
+
+Lemma edge_filed x b : edge sc g ow x b -> filed_decl d x /\ filed_decl d b.
 Proof.
-  rewrite V0_edge. intros (md & id & s & Hg & _). unfold ks. apply dict_keys_get. fold g. congruence.
+  intros (ex & s & eb & (Hd & k & Hg) & _ & (p & n & l & _ & _ & Hf) & ->). split.
+  - exists k, ex. auto.
+  - eapply found_filed; eauto.
 Qed.
 
-Lemma Dr_derived b i : clos_trans _ (Dr V0) b i <-> derived sc g b i.
-Proof. unfold derived. apply clos_trans_ext. intros x y. unfold Dr, Rv. apply V0_edge. Qed.
-
-Lemma derived_defined b i : derived sc g b i -> g b <> None.
+Lemma filed_in_U x : filed_decl d x -> In x U.
 Proof.
-  intro H. apply clos_trans_t1n in H. destruct H as [y (md & id & s & _ & _ & (p & n & mn & _ & _ & _ & Hd))
-                                                     |y z (md & id & s & _ & _ & (p & n & mn & _ & _ & _ & Hd)) _]; exact Hd.
+  intros (k & e & Hk & ->). apply dict_get_in in Hk. unfold U.
+  apply in_map_iff. exists (k, e). auto.
 Qed.
 
-Definition base_error (e : err) : Prop :=
-  exists k s md i, e = ErrBase k s /\ g k = Some (md, i) /\ In s (i_bases i) /\ ~ exists b, resolves sc g md s b.
-Definition cycle_error (e : err) : Prop := exists i, e = ErrCycle i /\ derived sc g i i.
+Lemma V0U x c : In c (V0 x) -> In c U.
+Proof. rewrite V0_edge. intro H. apply filed_in_U. apply (edge_filed _ _ H). Qed.
 
-Lemma base_err_iff e : base_err sc d (o2 ks) e <-> base_error e.
+Lemma Dr_derived b x : clos_trans _ (Dr V0) b x <-> derived sc g ow b x.
+Proof. unfold derived. apply clos_trans_ext. intros u v. unfold Dr, Rv. apply V0_edge. Qed.
+
+Lemma derived_filed b x : derived sc g ow b x -> filed_decl d b /\ filed_decl d x.
 Proof.
-  unfold base_err, base_error. split; intros (k & s & md & i & He & H).
-  - destruct H as (_ & Hg & Hs & Hn). exists k, s, md, i. repeat split; auto.
-    intros (b & Hb). apply fib_spec in Hb. unfold fib in Hn. congruence.
-  - destruct H as (Hg & Hs & Hn). exists k, s, md, i. split; auto. split.
-    + apply (oracle_in o2 _ _ Ho2). unfold ks. apply dict_keys_get. fold g. congruence.
-    + repeat split; auto. unfold fib. destruct (find_identity_base sc d md s) as [b|] eqn:E; auto.
-      exfalso. apply Hn. exists b. apply fib_spec. exact E.
+  intro H. split.
+  - destruct (tc_first _ _ _ H) as (z & Hz). apply (edge_filed _ _ Hz).
+  - destruct (tc_final _ _ _ H) as (z & Hz). apply (edge_filed _ _ Hz).
 Qed.
 
-Lemma cyc_err_iff e : cyc_err d V0 (o3 ks) e <-> cycle_error e.
+Definition base_error (er : err) : Prop :=
+  exists k e s, er = ErrBase (did_of e) s /\ g k = Some e /\ In s (i_bases (snd e)) /\
+                ~ exists eb, resolves sc g ow (fst e) s eb.
+Definition cycle_error (er : err) : Prop := exists x, er = ErrCycle x /\ derived sc g ow x x.
+
+Lemma base_err_iff er : base_err sc d t (o2 ks) er <-> base_error er.
 Proof.
-  unfold cyc_err, cycle_error. split; intros (i & He & H).
-  - destruct H as (_ & _ & Hc). exists i. split; auto. apply Dr_derived. exact Hc.
-  - exists i. split; auto. pose proof (derived_defined _ _ H) as Hd. split; [|split; auto].
-    + apply (oracle_in o3 _ _ Ho3). unfold ks. apply dict_keys_get. exact Hd.
-    + apply Dr_derived. exact H.
+  unfold base_err, base_error. split; intros (k & e & s & He & H).
+  - destruct H as (_ & Hg & Hs & Hn). exists k, e, s. repeat split; auto.
+    intros (eb & Hb). apply fib_spec in Hb. unfold fib in Hn. congruence.
+  - destruct H as (Hg & Hs & Hn). exists k, e, s. split; auto. split.
+    + apply (in_order o2 k Ho2). congruence.
+    + repeat split; auto. unfold fib. destruct (find_identity_base sc d t (fst e) s) as [eb|] eqn:E; auto.
+      exfalso. apply Hn. exists eb. apply fib_spec. exact E.
+Qed.
+
+Lemma cyc_err_iff er : cyc_err d V0 (o3 ks) er <-> cycle_error er.
+Proof.
+  unfold cyc_err, cycle_error. split.
+  - intros (k & e & He & _ & _ & Hc). exists (did_of e). split; auto. apply Dr_derived. exact Hc.
+  - intros (x & He & Hc). destruct (proj1 (derived_filed _ _ Hc)) as (k & e & Hk & ->).
+    exists k, e. split; auto. split; [|split; auto].
+    + apply (in_order o3 k Ho3). fold g in Hk. congruence.
+    + apply Dr_derived. exact Hc.
 Qed.
 
 Lemma master :
-  exists V errs, pass3 (length ks + 1) d (o3 ks) st2 = Some (V, errs) /\
-    (forall b, sorted_keys g (V b)) /\
-    (forall b i, In i (V b) <-> derived sc g b i) /\
-    (forall e, In e errs <-> base_error e \/ cycle_error e).
+  exists V errs, pass3 (length ks + 1) sc d (o3 ks) st2 = Some (V, errs) /\
+    (forall b, sorted_keys sc dl (V b)) /\
+    (forall b x, In x (V b) <-> derived sc g ow b x) /\
+    (forall er, In er errs <-> base_error er \/ cycle_error er).
 Proof.
-  destruct (p3_fold d V0 ks V0ks (o3 ks) V0 (snd st2) (Jinv_V0 V0)) as (V & errs & E & J & G & _ & _ & X).
+  assert (HL : length ks = length U). { unfold ks, U, dict_keys. rewrite !map_length. reflexivity. }
+  rewrite HL.
+  destruct (p3_fold sc d V0 U V0U (o3 ks) V0 (snd st2) (Jinv_V0 V0)) as (V & errs & E & J & G & _ & X).
   exists V, errs. split. { rewrite <- E. f_equal. unfold V0. destruct st2; reflexivity. }
-  assert (Hin : forall b i, In i (V b) <-> derived sc g b i).
-  { intros b i. destruct (g b) as [en|] eqn:Eb.
-    - destruct (G b) as (_ & _ & I).
-      + apply (oracle_in o3 _ _ Ho3). unfold ks. apply dict_keys_get. fold g. congruence.
-      + fold g. congruence.
-      + rewrite I. apply Dr_derived.
-    - split.
-      + intro H. apply Dr_derived. apply J. exact H.
-      + intro H. apply derived_defined in H. congruence. }
+  assert (Hin : forall b x, In x (V b) <-> derived sc g ow b x).
+  { intros b x. split.
+    - intro H. apply Dr_derived. apply J. exact H.
+    - intro H. destruct (proj1 (derived_filed _ _ H)) as (k & e & Hk & ->).
+      destruct (G k e) as (_ & _ & I); auto.
+      + apply (in_order o3 k Ho3). fold g in Hk. congruence.
+      + apply I. apply Dr_derived. exact H. }
   split; [|split; [exact Hin|]].
-  - intro b. destruct (g b) as [en|] eqn:Eb.
-    + destruct (G b) as (N & S & _).
-      * apply (oracle_in o3 _ _ Ho3). unfold ks. apply dict_keys_get. fold g. congruence.
-      * fold g. congruence.
-      * apply SS_strict; auto.
-    + assert (V b = []) as ->; [|constructor].
-      apply nil_iff. intros x Hx. apply Hin in Hx. apply derived_defined in Hx. congruence.
-  - intro e. rewrite X. unfold st2. rewrite (proj2 (pass2_spec sc d (o2 ks))). rewrite base_err_iff, cyc_err_iff. tauto.
+  - intro b. destruct (V b) as [|y r] eqn:Eb; [constructor|]. rewrite <- Eb.
+    assert (Hy : derived sc g ow b y). { apply Hin. rewrite Eb. left; auto. }
+    destruct (proj1 (derived_filed _ _ Hy)) as (k & e & Hk & ->).
+    destruct (G k e) as (N & S & _); auto.
+    + apply (in_order o3 k Ho3). fold g in Hk. congruence.
+    + apply SS_strict; auto. rewrite Forall_forall. intros x Hx. apply Hin in Hx.
+      apply (derived_filed _ _ Hx).
+  - intro er. rewrite X. unfold st2. rewrite (proj2 (pass2_spec sc d t (o2 ks))).
+    rewrite base_err_iff, cyc_err_iff. tauto.
 Qed.
 End Master.
 
-(* ---------------- link errors *)
-Lemma link_errors_spec sc e : In e (link_errors sc) <-> exists m, visible sc m /\ In e (link_errors_of sc m).
-Proof.
-  unfold link_errors. rewrite in_flat_map. split.
-  - intros (n & Hn & H). destruct (find_mod sc false n) as [md|] eqn:Ef; [|destruct H].
-    destruct (proj1 (module_names_spec sc n md) (conj Hn Ef)) as (L & _).
-    apply in_flat_map in H. destruct H as (m & Hm & He). exists m. split; auto.
-    exists md. split; auto. apply (whole_module_spec sc md L). exact Hm.
-  - intros (m & (md & L & P) & He). exists (m_name md).
-    destruct (proj2 (module_names_spec sc (m_name md) md) (conj L eq_refl)) as (Hn & Hf).
-    split; auto. rewrite Hf. apply in_flat_map. exists m. split; auto.
-    apply (whole_module_spec sc md L). exact P.
-Qed.
-
-Lemma link_errors_of_in sc m e : In e (link_errors_of sc m) <->
-  (exists n, e = ErrLink (m_name m) n /\ In n (m_includes m) /\ find_mod sc true n = None) \/
-  (exists p n, e = ErrLink (m_name m) n /\ In (p, n) (m_imports m) /\ find_mod sc false n = None).
-Proof.
-  unfold link_errors_of. rewrite in_app_iff, !in_flat_map. split.
-  - intros [(n & Hn & H)|([p n] & Hn & H)]; cbn [snd] in *.
-    + left. destruct (find_mod sc true n) eqn:E; [destruct H|]. destruct H as [<-|[]]. eauto.
-    + right. destruct (find_mod sc false n) eqn:E; [destruct H|]. destruct H as [<-|[]]. eauto.
-  - intros [(n & -> & Hn & E)|(p & n & -> & Hn & E)].
-    + left. exists n. split; auto. rewrite E. left; auto.
-    + right. exists (p, n). split; auto. cbn [snd]. rewrite E. left; auto.
-Qed.
-
-Lemma link_errors_nil sc : link_errors sc = [] <-> links_ok sc.
-Proof.
-  rewrite nil_iff. unfold links_ok. split.
-  - intros H m Hv. split.
-    + intros n Hn E. apply (H (ErrLink (m_name m) n)). apply link_errors_spec. exists m. split; auto.
-      apply link_errors_of_in. left. eauto.
-    + intros p n Hn E. apply (H (ErrLink (m_name m) n)). apply link_errors_spec. exists m. split; auto.
-      apply link_errors_of_in. right. eauto.
-  - intros H e He. apply link_errors_spec in He. destruct He as (m & Hv & He).
-    destruct (H m Hv) as (H1 & H2). apply link_errors_of_in in He.
-    destruct He as [(n & _ & Hn & E)|(p & n & _ & Hn & E)].
-    + eapply H1; eauto.
-    + eapply H2; eauto.
-Qed.
-
 (* ---------------- the whole function *)
 Definition graph_of (r : result) : lookup := dict_get (r_dict r).
+Definition owners_of (r : result) : module -> list module := owners_get (r_owners r).
+Definition decls_of (r : result) : lookup := decl_get (r_dict r).
 
-Theorem resolve_spec sc om o2 o3 : is_oracle o2 -> is_oracle o3 ->
-  exists r, resolve_identities om o2 o3 sc = Some r /\ r_dict r = build_dict om sc /\
-    (forall b, sorted_keys (graph_of r) (r_values r b)) /\
-    (forall b i, In i (r_values r b) <-> derived sc (graph_of r) b i) /\
-    (forall e, In e (r_errors r) <->
-               In e (link_errors sc) \/ base_error sc (r_dict r) e \/ cycle_error sc (r_dict r) e).
+Theorem resolve_spec sc o2 o3 : is_oracle o2 -> is_oracle o3 ->
+  exists r, resolve_identities o2 o3 sc = Some r /\
+    r_dict r = fst (pass1 sc) /\ r_owners r = snd (pass1 sc) /\
+    (forall b, sorted_keys sc (decls_of r) (r_values r b)) /\
+    (forall b x, In x (r_values r b) <-> derived sc (graph_of r) (owners_of r) b x) /\
+    (forall er, In er (r_errors r) <->
+                In er (link_errors sc) \/ base_error sc (r_dict r) (r_owners r) er \/
+                cycle_error sc (r_dict r) (r_owners r) er).
 Proof.
-  intros Ho2 Ho3. unfold resolve_identities.
-  destruct (master sc (build_dict om sc) o2 o3 Ho2 Ho3) as (V & errs & E & S & I & X).
-  rewrite E. eexists. split; [reflexivity|]. unfold graph_of. cbn [r_dict r_values r_errors].
-  split; [reflexivity|]. split; [exact S|]. split; [exact I|].
-  intro e. rewrite in_app_iff, X. tauto.
+  intros Ho2 Ho3. unfold resolve_identities. destruct (pass1 sc) as [d t] eqn:E1. cbn [fst snd].
+  destruct (master sc d t o2 o3 Ho2 Ho3) as (V & errs & E & S & I & X).
+  rewrite E. eexists. split; [reflexivity|]. unfold graph_of, owners_of, decls_of.
+  cbn [r_dict r_owners r_values r_errors].
+  split; [reflexivity|]. split; [reflexivity|]. split; [exact S|]. split; [exact I|].
+  intro er. rewrite in_app_iff, X. tauto.
 Qed.
 
-Lemma resolve_inv sc om o2 o3 r : is_oracle o2 -> is_oracle o3 ->
-  resolve_identities om o2 o3 sc = Some r ->
-  r_dict r = build_dict om sc /\
-  (forall b, sorted_keys (graph_of r) (r_values r b)) /\
-  (forall b i, In i (r_values r b) <-> derived sc (graph_of r) b i) /\
-  (forall e, In e (r_errors r) <->
-             In e (link_errors sc) \/ base_error sc (r_dict r) e \/ cycle_error sc (r_dict r) e).
+Lemma resolve_inv sc o2 o3 r : is_oracle o2 -> is_oracle o3 ->
+  resolve_identities o2 o3 sc = Some r ->
+  r_dict r = fst (pass1 sc) /\ r_owners r = snd (pass1 sc) /\
+  (forall b, sorted_keys sc (decls_of r) (r_values r b)) /\
+  (forall b x, In x (r_values r b) <-> derived sc (graph_of r) (owners_of r) b x) /\
+  (forall er, In er (r_errors r) <->
+              In er (link_errors sc) \/ base_error sc (r_dict r) (r_owners r) er \/
+              cycle_error sc (r_dict r) (r_owners r) er).
 Proof.
-  intros Ho2 Ho3 H. destruct (resolve_spec sc om o2 o3 Ho2 Ho3) as (r' & E & P). rewrite H in E.
+  intros Ho2 Ho3 H. destruct (resolve_spec sc o2 o3 Ho2 Ho3) as (r' & E & P). rewrite H in E.
   inversion E; subst. exact P.
 Qed.
 
-Theorem resolve_total sc om o2 o3 : is_oracle o2 -> is_oracle o3 ->
-  exists r, resolve_identities om o2 o3 sc = Some r.
-Proof. intros H2 H3. destruct (resolve_spec sc om o2 o3 H2 H3) as (r & E & _). eauto. Qed.
+Theorem resolve_total sc o2 o3 : is_oracle o2 -> is_oracle o3 ->
+  exists r, resolve_identities o2 o3 sc = Some r.
+Proof. intros H2 H3. destruct (resolve_spec sc o2 o3 H2 H3) as (r & E & _). eauto. Qed.
 
 Section Run.
-Variables (sc : schema) (om o2 o3 : list string -> list string) (r : result).
+Variables (sc : schema) (o2 o3 : list string -> list string) (r : result).
 Hypothesis Ho2 : is_oracle o2.
 Hypothesis Ho3 : is_oracle o3.
-Hypothesis Hrun : resolve_identities om o2 o3 sc = Some r.
+Hypothesis Hrun : resolve_identities o2 o3 sc = Some r.
 Let g := graph_of r.
+Let ow := owners_of r.
 
-Theorem values_sorted b : sorted_keys g (r_values r b).
-Proof. apply (resolve_inv sc om o2 o3 r Ho2 Ho3 Hrun). Qed.
+Theorem values_sorted b : sorted_keys sc (decls_of r) (r_values r b).
+Proof. apply (resolve_inv sc o2 o3 r Ho2 Ho3 Hrun). Qed.
 
 Theorem values_nodup b : NoDup (r_values r b).
 Proof. eapply sorted_keys_nodup. apply values_sorted. Qed.
 
-Theorem values_exact b i : In i (r_values r b) <-> derived sc g b i.
-Proof. apply (resolve_inv sc om o2 o3 r Ho2 Ho3 Hrun). Qed.
+Theorem values_exact b x : In x (r_values r b) <-> derived sc g ow b x.
+Proof. apply (resolve_inv sc o2 o3 r Ho2 Ho3 Hrun). Qed.
 
-Theorem values_not_self b : ~ derived sc g b b -> ~ In b (r_values r b).
+Theorem values_not_self b : ~ derived sc g ow b b -> ~ In b (r_values r b).
 Proof. intros H Hin. apply H. apply values_exact. exact Hin. Qed.
 
-Theorem values_are_identities b i : In i (r_values r b) -> defined g i /\ defined g b.
+Theorem values_are_identities b x : In x (r_values r b) ->
+  (exists e, declares g x e) /\ (exists e, declares g b e).
 Proof.
-  intro H. apply values_exact in H. split.
-  - apply clos_trans_tn1 in H. destruct H as [y (md & id & s & Hg & _)|y z (md & id & s & Hg & _) _];
-      unfold defined; congruence.
-  - unfold defined. apply clos_trans_t1n in H.
-    destruct H as [y (md & id & s & _ & _ & (p & n & mn & _ & _ & _ & Hd))
-                  |y z (md & id & s & _ & _ & (p & n & mn & _ & _ & _ & Hd)) _]; exact Hd.
+  intro H. apply values_exact in H. destruct (derived_filed sc _ _ _ _ H) as ((k & e & Hk & ->) & (k' & e' & Hk' & ->)).
+  split; [exists e'|exists e]; (split; [reflexivity|eauto]).
 Qed.
 
-Lemma errors_iff e : In e (r_errors r) <->
-  In e (link_errors sc) \/ base_error sc (r_dict r) e \/ cycle_error sc (r_dict r) e.
-Proof. apply (resolve_inv sc om o2 o3 r Ho2 Ho3 Hrun). Qed.
+Lemma errors_iff er : In er (r_errors r) <->
+  In er (link_errors sc) \/ base_error sc (r_dict r) (r_owners r) er \/ cycle_error sc (r_dict r) (r_owners r) er.
+Proof. apply (resolve_inv sc o2 o3 r Ho2 Ho3 Hrun). Qed.
 
-Theorem error_undefined_base i md id s :
-  g i = Some (md, id) -> In s (i_bases id) -> (~ exists b, resolves sc g md s b) ->
-  In (ErrBase i s) (r_errors r).
+Theorem error_undefined_base k e s :
+  g k = Some e -> In s (i_bases (snd e)) -> (~ exists eb, resolves sc g ow (fst e) s eb) ->
+  In (ErrBase (did_of e) s) (r_errors r).
 Proof.
-  intros Hg Hs Hn. apply errors_iff. right. left. exists i, s, md, id. auto.
+  intros Hg Hs Hn. apply errors_iff. right. left. exists k, e, s. auto.
 Qed.
 
-Theorem error_cycle i : derived sc g i i -> In (ErrCycle i) (r_errors r).
-Proof. intro H. apply errors_iff. right. right. exists i. auto. Qed.
+Theorem error_cycle x : derived sc g ow x x -> In (ErrCycle x) (r_errors r).
+Proof. intro H. apply errors_iff. right. right. exists x. auto. Qed.
 
-Theorem error_missing_link m n : visible sc m ->
-  (In n (m_includes m) /\ find_mod sc true n = None) \/
-  (exists p, In (p, n) (m_imports m) /\ find_mod sc false n = None) ->
-  In (ErrLink (m_name m) n) (r_errors r).
-Proof.
-  intros Hv H. apply errors_iff. left. apply link_errors_spec. exists m. split; auto.
-  apply link_errors_of_in. destruct H as [(H1 & H2)|(p & H1 & H2)]; [left|right]; eauto.
-Qed.
+Theorem error_link er : In er (link_errors sc) -> In er (r_errors r).
+Proof. intro H. apply errors_iff. auto. Qed.
 
-Theorem errors_none_iff : r_errors r = [] <-> links_ok sc /\ all_resolve sc g /\ acyclic sc g.
+Theorem errors_none_iff :
+  r_errors r = [] <-> link_errors sc = [] /\ all_resolve sc g ow /\ acyclic sc g ow.
 Proof.
   rewrite nil_iff. split.
   - intro H. split; [|split].
-    + apply link_errors_nil. apply nil_iff. intros e He. apply (H e). apply errors_iff. auto.
-    + intros i md id s Hg Hs.
-      destruct (find_identity_base sc (r_dict r) md s) as [b|] eqn:E.
-      * exists b. apply fib_spec. exact E.
-      * exfalso. apply (H (ErrBase i s)). apply error_undefined_base with md id; auto.
-        intros (b & Hb). apply fib_spec in Hb. congruence.
-    + intros i Hc. apply (H (ErrCycle i)). apply error_cycle. exact Hc.
-  - intros (Hl & Hr & Ha) e He. apply errors_iff in He. destruct He as [He|[He|He]].
-    + apply link_errors_nil in Hl. rewrite Hl in He. destruct He.
-    + destruct He as (k & s & md & id & _ & Hg & Hs & Hn). apply Hn. eapply Hr; eauto.
-    + destruct He as (i & _ & Hc). eapply Ha; eauto.
+    + apply nil_iff. intros er He. apply (H er). apply errors_iff. auto.
+    + intros k e s Hg Hs.
+      destruct (find_identity_base sc (r_dict r) (r_owners r) (fst e) s) as [eb|] eqn:E.
+      * exists eb. apply fib_spec. exact E.
+      * exfalso. apply (H (ErrBase (did_of e) s)). apply error_undefined_base with k; auto.
+        intros (eb & Hb). apply fib_spec in Hb. congruence.
+    + intros x Hc. apply (H (ErrCycle x)). apply error_cycle. exact Hc.
+  - intros (Hl & Hr & Ha) er He. apply errors_iff in He. destruct He as [He|[He|He]].
+    + rewrite Hl in He. destruct He.
+    + destruct He as (k & e & s & _ & Hg & Hs & Hn). apply Hn. eapply Hr; eauto.
+    + destruct He as (x & _ & Hc). eapply Ha; eauto.
 Qed.
 
-Theorem identityref_spec sub n s b :
-  identityref_base sc (r_dict r) sub n s = Some b <->
-  exists md, find_mod sc sub n = Some md /\ resolves sc g md s b.
+Theorem identityref_spec sub fulln s b :
+  identityref_base sc r sub fulln s = Some b <->
+  exists md e, find (fun m => Bool.eqb (m_sub m) sub && (full_name m =? fulln)) sc = Some md /\
+               resolves sc g ow md s e /\ b = did_of e.
 Proof.
   unfold identityref_base. split.
-  - destruct (find_mod sc sub n) as [md|]; [|discriminate]. intro H. exists md. split; auto.
-    apply fib_spec. exact H.
-  - intros (md & -> & H). apply fib_spec. exact H.
-Qed.
-
-Theorem dictionary_spec : is_oracle om -> consistent sc -> forall k e, g k = Some e <-> declared sc k e.
-Proof.
-  intros Hom Hc k e. unfold g, graph_of.
-  rewrite (proj1 (resolve_inv sc om o2 o3 r Ho2 Ho3 Hrun)). apply dict_spec; auto.
-Qed.
-
-Theorem dictionary_sound : is_oracle om -> forall k e, g k = Some e -> declared sc k e.
-Proof.
-  intros Hom k e. unfold g, graph_of.
-  rewrite (proj1 (resolve_inv sc om o2 o3 r Ho2 Ho3 Hrun)). apply dict_sound; auto.
-Qed.
-
-Theorem dictionary_complete : is_oracle om -> forall k e, declared sc k e -> defined g k.
-Proof.
-  intros Hom k e H. unfold defined, g, graph_of.
-  rewrite (proj1 (resolve_inv sc om o2 o3 r Ho2 Ho3 Hrun)).
-  destruct (dict_complete sc om k e Hom H) as (e' & -> & _). discriminate.
+  - destruct (find _ sc) as [md|]; [|discriminate].
+    destruct (find_identity_base sc (r_dict r) (r_owners r) md s) as [e|] eqn:E; [|discriminate].
+    intro H. inversion H; subst. exists md, e. split; auto. split; auto. apply fib_spec. exact E.
+  - intros (md & e & -> & H & ->). apply fib_spec in H. rewrite H. reflexivity.
 Qed.
 End Run.
 
-(* ---------------- the spec only reads the lookup function pointwise *)
-Section Ext.
-Variable sc : schema.
-Variables g1 g2 : lookup.
-Hypothesis Hg : forall k, g1 k = g2 k.
-
-Lemma resolves_ext md s b : resolves sc g1 md s b -> resolves sc g2 md s b.
-Proof.
-  intros (p & n & mn & H1 & H2 & H3 & H4). exists p, n, mn. repeat split; auto.
-  unfold defined in *. rewrite <- Hg. exact H4.
-Qed.
-
-Lemma edge_ext i b : edge sc g1 i b -> edge sc g2 i b.
-Proof.
-  intros (md & id & s & H1 & H2 & H3). exists md, id, s. rewrite <- Hg. repeat split; auto.
-  apply resolves_ext; auto.
-Qed.
-
-Lemma name_of_ext k : name_of g1 k = name_of g2 k.
-Proof. unfold name_of. rewrite Hg. reflexivity. Qed.
-
-Lemma key_lt_ext a b : key_lt g1 a b -> key_lt g2 a b.
-Proof. unfold key_lt. rewrite !name_of_ext. auto. Qed.
-
-Lemma sorted_keys_ext l : sorted_keys g1 l -> sorted_keys g2 l.
-Proof.
-  unfold sorted_keys. induction 1 as [|a l S IH F]; constructor; auto.
-  rewrite Forall_forall in *. intros x Hx. apply key_lt_ext. auto.
-Qed.
-End Ext.
-
-Lemma derived_ext sc g1 g2 : (forall k, g1 k = g2 k) -> forall b i, derived sc g1 b i <-> derived sc g2 b i.
-Proof.
-  intros Hg. unfold derived. apply clos_trans_ext. intros x y. split; apply edge_ext; auto.
-Qed.
-
-Lemma all_resolve_ext sc g1 g2 : (forall k, g1 k = g2 k) -> all_resolve sc g1 -> all_resolve sc g2.
-Proof.
-  intros Hg H i md id s Hi Hs. rewrite <- Hg in Hi. destruct (H i md id s Hi Hs) as (b & Hb).
-  exists b. eapply resolves_ext; eauto.
-Qed.
-
-Lemma acyclic_ext sc g1 g2 : (forall k, g1 k = g2 k) -> acyclic sc g1 -> acyclic sc g2.
-Proof. intros Hg H i Hc. apply (H i). apply (derived_ext sc g1 g2 Hg). exact Hc. Qed.
-
 (* ---------------- the result is a function of the schema alone *)
-Theorem oracle_independent sc om o2 o3 om' o2' o3' r r' :
-  is_oracle om -> is_oracle o2 -> is_oracle o3 -> is_oracle om' -> is_oracle o2' -> is_oracle o3' ->
-  consistent sc ->
-  resolve_identities om o2 o3 sc = Some r -> resolve_identities om' o2' o3' sc = Some r' ->
-  (forall k, graph_of r k = graph_of r' k) /\
+Theorem oracle_independent sc o2 o3 o2' o3' r r' :
+  is_oracle o2 -> is_oracle o3 -> is_oracle o2' -> is_oracle o3' ->
+  resolve_identities o2 o3 sc = Some r -> resolve_identities o2' o3' sc = Some r' ->
+  r_dict r = r_dict r' /\ r_owners r = r_owners r' /\
   (forall b, r_values r b = r_values r' b) /\
   (r_errors r = [] <-> r_errors r' = []).
 Proof.
-  intros Hm H2 H3 Hm' H2' H3' Hc E E'.
-  assert (Hg : forall k, graph_of r k = graph_of r' k).
-  { intro k. pose proof (dictionary_spec sc om o2 o3 r H2 H3 E Hm Hc k) as A.
-    pose proof (dictionary_spec sc om' o2' o3' r' H2' H3' E' Hm' Hc k) as B.
-    destruct (graph_of r k) as [e|] eqn:E1.
-    - symmetry. apply B. apply A. reflexivity.
-    - destruct (graph_of r' k) as [e'|] eqn:E2; auto.
-      assert (None = Some e') as F; [|discriminate]. apply A. apply B. reflexivity. }
-  assert (Hg' : forall k, graph_of r' k = graph_of r k) by (intro; symmetry; apply Hg).
-  split; [exact Hg|]. split.
-  - intro b. apply (strict_sorted_unique (graph_of r)).
-    + apply (values_sorted sc om o2 o3 r H2 H3 E).
-    + apply (sorted_keys_ext (graph_of r') (graph_of r) Hg'). apply (values_sorted sc om' o2' o3' r' H2' H3' E').
-    + intro x. rewrite (values_exact sc om o2 o3 r H2 H3 E), (values_exact sc om' o2' o3' r' H2' H3' E').
-      apply derived_ext. exact Hg.
-  - rewrite (errors_none_iff sc om o2 o3 r H2 H3 E), (errors_none_iff sc om' o2' o3' r' H2' H3' E').
-    split; intros (A & B & C); (split; [exact A|split]).
-    + apply (all_resolve_ext sc _ _ Hg B). + apply (acyclic_ext sc _ _ Hg C).
-    + apply (all_resolve_ext sc _ _ Hg' B). + apply (acyclic_ext sc _ _ Hg' C).
+  intros H2 H3 H2' H3' E E'.
+  destruct (resolve_inv sc o2 o3 r H2 H3 E) as (D & T & _).
+  destruct (resolve_inv sc o2' o3' r' H2' H3' E') as (D' & T' & _).
+  assert (Hd : r_dict r = r_dict r') by congruence.
+  assert (Ht : r_owners r = r_owners r') by congruence.
+  split; [exact Hd|]. split; [exact Ht|]. split.
+  - intro b. apply (strict_sorted_unique sc (decls_of r)).
+    + apply (values_sorted sc o2 o3 r H2 H3 E).
+    + unfold decls_of. rewrite Hd. apply (values_sorted sc o2' o3' r' H2' H3' E').
+    + intro x. rewrite (values_exact sc o2 o3 r H2 H3 E), (values_exact sc o2' o3' r' H2' H3' E').
+      unfold graph_of, owners_of. rewrite Hd, Ht. tauto.
+  - rewrite (errors_none_iff sc o2 o3 r H2 H3 E), (errors_none_iff sc o2' o3' r' H2' H3' E').
+    unfold graph_of, owners_of. rewrite Hd, Ht. tauto.
 Qed.
 
-(* consistency from a computation on the insertion list *)
 Lemma ord_id_oracle : is_oracle ord_id.
 Proof. intro l. apply Permutation_refl. Qed.
 Lemma ord_rev_oracle : is_oracle ord_rev.
 Proof. intro l. apply Permutation_rev. Qed.
 
-Lemma consistent_nodup sc : NoDup (map fst (insertions sc (module_names sc))) -> consistent sc.
+Section Tier2.
+Variable sc : schema.
+Hypothesis Hwf : wf_schema sc.
+
+Lemma loaded_in sub md : loaded sc sub md -> In md sc /\ m_sub md = sub.
+Proof. intros (k & H). eapply reg_get_in; eauto. Qed.
+
+Lemma loaded_sorted sub md : loaded sc sub md <-> In md (sorted_modules sc sub).
+Proof. symmetry. apply sorted_modules_spec. exact Hwf. Qed.
+
+(* ---------------- wholeModule and part_of *)
+Lemma whole_module_spec md : loaded sc false md -> forall m, In m (whole_module sc md) <-> part_of sc md m.
 Proof.
-  intros N k e1 e2 H1 H2.
-  apply (insertions_spec sc ord_id k e1 ord_id_oracle) in H1.
-  apply (insertions_spec sc ord_id k e2 ord_id_oracle) in H2. unfold ord_id in *.
-  revert N H1 H2. generalize (insertions sc (module_names sc)) as l.
-  induction l as [|[k0 e0] l IH]; intros N H1 H2; [destruct H1|].
-  cbn [map fst] in N. inversion N as [|? ? Nk N']; subst.
-  destruct H1 as [H1|H1], H2 as [H2|H2].
-  - congruence.
-  - inversion H1; subst. exfalso. apply Nk. apply in_map_iff. exists (k, e2). auto.
-  - inversion H2; subst. exfalso. apply Nk. apply in_map_iff. exists (k, e1). auto.
-  - apply IH; auto.
+  intros L. destruct (loaded_in _ _ L) as (Hin & Hs).
+  unfold whole_module. rewrite Hs.
+  destruct (whole_loop_spec sc Hwf (whole_fuel sc md) [] [md]) as (A & B & C).
+  { simpl. rewrite unseen_nil_total. unfold whole_fuel. lia. }
+  { intros x [<-|[]]. exact Hin. }
+  intro m. split.
+  - intro Hm. destruct (C m Hm) as (y & [<-|[]] & Hr).
+    clear Hm. apply clos_rt_rtn1 in Hr. induction Hr as [|u v Huv _ IH]; [constructor|].
+    unfold inc in Huv. apply included_spec in Huv. destruct Huv as (n & dt & Hn & Hv).
+    eapply part_incl; eauto.
+  - induction 1 as [|m n dt s _ IH Hn Hs'].
+    + destruct (A md (or_introl eq_refl)) as [H|H]; [discriminate|exact H].
+    + destruct (B m IH s) as [H|H]; [|discriminate|exact H].
+      apply included_spec. exists n, dt. auto.
+Qed.
+
+Lemma visible_spec m : visible sc m <-> exists md, In md (sorted_modules sc false) /\ In m (whole_module sc md).
+Proof.
+  unfold visible. split; intros (md & H1 & H2); exists md.
+  - split; [apply loaded_sorted; auto|]. apply whole_module_spec; auto.
+  - apply loaded_sorted in H1. split; auto. apply whole_module_spec; auto.
+Qed.
+
+(* ---------------- link errors *)
+Lemma link_errors_spec er : In er (link_errors sc) <-> exists m, visible sc m /\ In er (link_errors_of sc m).
+Proof.
+  unfold link_errors. rewrite in_flat_map. split.
+  - intros (md & Hmd & H). apply in_flat_map in H. destruct H as (m & Hm & He). exists m. split; auto.
+    apply visible_spec. eauto.
+  - intros (m & Hv & He). apply visible_spec in Hv. destruct Hv as (md & H1 & H2).
+    exists md. split; auto. apply in_flat_map. eauto.
+Qed.
+
+Lemma link_errors_of_in m er : In er (link_errors_of sc m) <->
+  (exists n dt, er = ErrLink (m_name m) n /\ In (n, dt) (m_includes m) /\ find_module sc true n dt = None) \/
+  (exists p n dt, er = ErrLink (m_name m) n /\ In (p, n, dt) (m_imports m) /\ find_module sc false n dt = None).
+Proof.
+  unfold link_errors_of. rewrite in_app_iff, !in_flat_map. split.
+  - intros [([n dt] & Hn & H)|([[p n] dt] & Hn & H)]; cbn [fst snd] in *.
+    + left. destruct (find_module sc true n dt) eqn:E; [destruct H|]. destruct H as [<-|[]]. eauto 6.
+    + right. destruct (find_module sc false n dt) eqn:E; [destruct H|]. destruct H as [<-|[]]. eauto 7.
+  - intros [(n & dt & -> & Hn & E)|(p & n & dt & -> & Hn & E)].
+    + left. exists (n, dt). split; auto. cbn [fst snd]. rewrite E. left; auto.
+    + right. exists (p, n, dt). split; auto. cbn [fst snd]. rewrite E. left; auto.
+Qed.
+
+Lemma link_errors_nil : link_errors sc = [] <-> links_ok sc.
+Proof.
+  rewrite nil_iff. unfold links_ok. split.
+  - intros H m Hv. split.
+    + intros n dt Hn E. apply (H (ErrLink (m_name m) n)). apply link_errors_spec. exists m. split; auto.
+      apply link_errors_of_in. left. eauto.
+    + intros p n dt Hn E. apply (H (ErrLink (m_name m) n)). apply link_errors_spec. exists m. split; auto.
+      apply link_errors_of_in. right. eauto 6.
+  - intros H er He. apply link_errors_spec in He. destruct He as (m & Hv & He).
+    destruct (H m Hv) as (H1 & H2). apply link_errors_of_in in He.
+    destruct He as [(n & dt & _ & Hn & E)|(p & n & dt & _ & Hn & E)].
+    + eapply H1; eauto.
+    + eapply H2; eauto.
+Qed.
+
+(* ---------------- the dictionary *)
+Definition set_all (d : dict) (l : list (key * entry)) : dict :=
+  fold_left (fun d ke => dict_set d (fst ke) (snd ke)) l d.
+
+Lemma set_all_get : forall l d k,
+  (dict_get (set_all d l) k = dict_get d k /\ forall e, ~ In (k, e) l) \/
+  (exists e, In (k, e) l /\ dict_get (set_all d l) k = Some e).
+Proof.
+  induction l as [|[k0 e0] l IH]; intros d k; cbn [set_all fold_left].
+  - left. split; auto.
+  - fold (set_all (dict_set d k0 e0) l). cbn [fst snd].
+    destruct (IH (dict_set d k0 e0) k) as [(H1 & H2)|(e & H1 & H2)].
+    + rewrite dict_get_set in H1. destruct (String.eqb_spec k0 k) as [->|N].
+      * right. exists e0. split; [left; auto|exact H1].
+      * left. split; auto. intros e [H|H]; [congruence|]. eapply H2; eauto.
+    + right. exists e. split; [right; auto|exact H2].
+Qed.
+
+Definition part_entries (md m : module) : list (key * entry) :=
+  map (fun i => (identity_key (owner_for sc md m) (i_name i), (m, i))) (m_idents m).
+Definition module_entries (md : module) : list (key * entry) :=
+  flat_map (part_entries md) (whole_module sc md).
+Definition insertions : list (key * entry) := flat_map module_entries (sorted_modules sc false).
+
+Lemma fold_left_flat_map {A B C} (f : A -> C -> A) (gg : B -> list C) l a :
+  fold_left f (flat_map gg l) a = fold_left (fun a x => fold_left f (gg x) a) l a.
+Proof.
+  revert a. induction l as [|x l IH]; intro a; simpl; auto. rewrite fold_left_app. apply IH.
+Qed.
+
+Lemma fold_left_ext {A B} (f1 f2 : A -> B -> A) l a :
+  (forall a x, f1 a x = f2 a x) -> fold_left f1 l a = fold_left f2 l a.
+Proof. intro H. revert a. induction l; intro a0; simpl; auto. rewrite H. auto. Qed.
+
+Lemma fst_fold {A B C} (F : A * B -> C -> A * B) (G : A -> C -> A) l st :
+  (forall st x, fst (F st x) = G (fst st) x) -> fst (fold_left F l st) = fold_left G l (fst st).
+Proof. intro H. revert st. induction l as [|x l IH]; intro st; simpl; auto. rewrite IH, H. reflexivity. Qed.
+
+Lemma fst_register_part md st m :
+  fst (register_part sc md st m) = set_all (fst st) (part_entries md m).
+Proof.
+  unfold register_part, set_all, part_entries. cbn [fst].
+  generalize (m_idents m) as l. generalize (fst st) as d0. intros d0 l. revert d0.
+  induction l as [|i l IH]; intro d0; simpl; auto.
+Qed.
+
+Lemma fst_pass1 : fst (pass1 sc) = set_all [] insertions.
+Proof.
+  unfold pass1. cbn [fst]. unfold insertions, set_all.
+  rewrite fold_left_flat_map.
+  rewrite (fst_fold (register_module sc)
+             (fun d md => fold_left (fun d ke => dict_set d (fst ke) (snd ke)) (module_entries md) d)).
+  - reflexivity.
+  - intros st md. unfold register_module, module_entries. rewrite fold_left_flat_map.
+    apply fst_fold. intros st' m. apply fst_register_part.
+Qed.
+
+Lemma insertions_spec k e : In (k, e) insertions <-> filed sc k e.
+Proof.
+  unfold insertions, filed. rewrite in_flat_map. split.
+  - intros (md & Hmd & H). apply loaded_sorted in Hmd.
+    unfold module_entries in H. apply in_flat_map in H. destruct H as (m & Hm & H).
+    unfold part_entries in H. apply in_map_iff in H. destruct H as (i & Hi & Hin).
+    inversion Hi; subst. exists md. cbn [fst snd]. split; auto. split; [apply whole_module_spec; auto|auto].
+  - destruct e as [m i]. intros (md & L & P & Hi & ->). cbn [fst snd] in *.
+    exists md. split; [apply loaded_sorted; auto|].
+    unfold module_entries. apply in_flat_map. exists m. split; [apply whole_module_spec; auto|].
+    unfold part_entries. apply in_map_iff. exists i. auto.
+Qed.
+
+Lemma dict_sound k e : dict_get (fst (pass1 sc)) k = Some e -> filed sc k e.
+Proof.
+  rewrite fst_pass1. intro H.
+  destruct (set_all_get insertions [] k) as [(H1 & _)|(e' & H1 & H2)].
+  - rewrite H in H1. discriminate.
+  - rewrite H in H2. inversion H2; subst. apply insertions_spec. exact H1.
+Qed.
+
+Lemma dict_complete k e : filed sc k e -> exists e', dict_get (fst (pass1 sc)) k = Some e' /\ filed sc k e'.
+Proof.
+  intro H. apply insertions_spec in H. rewrite fst_pass1.
+  destruct (set_all_get insertions [] k) as [(_ & H2)|(e' & H1 & H2)].
+  - exfalso. eapply H2; eauto.
+  - exists e'. split; auto. apply insertions_spec. exact H1.
+Qed.
+
+Lemma dict_spec : consistent sc -> forall k e, dict_get (fst (pass1 sc)) k = Some e <-> filed sc k e.
+Proof.
+  intros Hc k e. split; [apply dict_sound|].
+  intro H. destruct (dict_complete k e H) as (e' & H1 & H2). rewrite H1. f_equal. eapply Hc; eauto.
+Qed.
+End Tier2.
+
+Section RunTier2.
+Variables (sc : schema) (o2 o3 : list string -> list string) (r : result).
+Hypothesis Hwf : wf_schema sc.
+Hypothesis Ho2 : is_oracle o2.
+Hypothesis Ho3 : is_oracle o3.
+Hypothesis Hrun : resolve_identities o2 o3 sc = Some r.
+
+Theorem dictionary_sound k e : dict_get (r_dict r) k = Some e -> filed sc k e.
+Proof. rewrite (proj1 (resolve_inv sc o2 o3 r Ho2 Ho3 Hrun)). apply dict_sound; auto. Qed.
+
+Theorem dictionary_complete k e : filed sc k e -> exists e', dict_get (r_dict r) k = Some e' /\ filed sc k e'.
+Proof. rewrite (proj1 (resolve_inv sc o2 o3 r Ho2 Ho3 Hrun)). apply dict_complete; auto. Qed.
+
+Theorem dictionary_spec : consistent sc -> forall k e, dict_get (r_dict r) k = Some e <-> filed sc k e.
+Proof. rewrite (proj1 (resolve_inv sc o2 o3 r Ho2 Ho3 Hrun)). apply dict_spec; auto. Qed.
+
+Theorem error_missing_link m n :
+  visible sc m ->
+  (exists dt, In (n, dt) (m_includes m) /\ find_module sc true n dt = None) \/
+  (exists p dt, In (p, n, dt) (m_imports m) /\ find_module sc false n dt = None) ->
+  In (ErrLink (m_name m) n) (r_errors r).
+Proof.
+  intros Hv H. apply (error_link sc o2 o3 r Ho2 Ho3 Hrun). apply link_errors_spec; auto.
+  exists m. split; auto. apply link_errors_of_in.
+  destruct H as [(dt & H1 & H2)|(p & dt & H1 & H2)]; [left|right]; eauto 7.
+Qed.
+
+Theorem errors_none_iff' :
+  r_errors r = [] <->
+  links_ok sc /\ all_resolve sc (graph_of r) (owners_of r) /\ acyclic sc (graph_of r) (owners_of r).
+Proof.
+  rewrite (errors_none_iff sc o2 o3 r Ho2 Ho3 Hrun). rewrite (link_errors_nil sc Hwf). tauto.
+Qed.
+End RunTier2.
+
+Lemma wf_nodup sc :
+  NoDup (map (fun m => (m_sub m, full_name m)) sc) -> wf_schema sc.
+Proof.
+  intros N x y Hx Hy H. unfold same_mod in H. apply andb_prop in H. destruct H as (H1 & H2).
+  apply Bool.eqb_prop in H1. apply String.eqb_eq in H2.
+  revert N Hx Hy. induction sc as [|z l IH]; intros N Hx Hy; [destruct Hx|].
+  cbn [map] in N. inversion N as [|? ? Nz N']; subst.
+  destruct Hx as [->|Hx], Hy as [->|Hy]; auto.
+  - exfalso. apply Nz. apply in_map_iff. exists y. split; auto. rewrite H1, H2. reflexivity.
+  - exfalso. apply Nz. apply in_map_iff. exists x. split; auto. rewrite H1, H2. reflexivity.
+Qed.
+
+(* ---------------- the owners table *)
+Lemma same_mod_false_l m0 m m' : same_mod m0 m = true -> same_mod m m' = false -> same_mod m0 m' = false.
+Proof.
+  intros H1 H2. destruct (same_mod m0 m') eqn:E; auto.
+  rewrite same_mod_sym in H1. rewrite (same_mod_trans _ _ _ H1 E) in H2. discriminate.
+Qed.
+
+Lemma owners_get_set t m l m' :
+  owners_get (owners_set t m l) m' = if same_mod m m' then l else owners_get t m'.
+Proof.
+  induction t as [|[m0 l0] r IH]; cbn [owners_set owners_get]; [reflexivity|].
+  destruct (same_mod m0 m) eqn:E0; cbn [owners_get].
+  - destruct (same_mod m m') eqn:E; auto. rewrite (same_mod_false_l _ _ _ E0 E). reflexivity.
+  - rewrite IH. destruct (same_mod m0 m') eqn:E1; auto.
+    destruct (same_mod m m') eqn:E; auto.
+    rewrite same_mod_sym in E. rewrite (same_mod_trans _ _ _ E1 E) in E0. discriminate.
+Qed.
+
+Lemma owners_has_get t m : owners_get t m <> [] -> owners_has t m = true.
+Proof.
+  unfold owners_has. induction t as [|[m0 l0] r IH]; cbn [owners_get existsb fst]; [congruence|].
+  destruct (same_mod m0 m); auto.
+Qed.
+
+Lemma owners_has_set t m l m' : owners_has t m' = true -> owners_has (owners_set t m l) m' = true.
+Proof.
+  unfold owners_has. induction t as [|[m0 l0] r IH]; cbn [owners_set existsb fst]; [discriminate|].
+  destruct (same_mod m0 m) eqn:E0; cbn [existsb fst].
+  - intro H. apply orb_prop in H. destruct H as [H|H]; [|rewrite H; apply orb_true_r].
+    rewrite same_mod_sym in E0. rewrite (same_mod_trans _ _ _ E0 H). reflexivity.
+  - intro H. apply orb_prop in H. destruct H as [H|H]; [rewrite H; reflexivity|].
+    rewrite (IH H). apply orb_true_r.
+Qed.
+
+Lemma owners_has_same t m m' : same_mod m m' = true -> owners_has t m = owners_has t m'.
+Proof.
+  intro H. unfold owners_has. induction t as [|[m0 l0] r IH]; cbn [existsb fst]; auto.
+  rewrite IH. f_equal. destruct (same_mod m0 m) eqn:E.
+  - symmetry. eapply same_mod_trans; eauto.
+  - symmetry. destruct (same_mod m0 m') eqn:E'; auto.
+    rewrite same_mod_sym in H. rewrite (same_mod_trans _ _ _ E' H) in E. discriminate.
+Qed.
+
+Section Owners.
+Variable sc : schema.
+Hypothesis Hwf : wf_schema sc.
+
+Definition own_step (T : owners_table) (p : module * module) : owners_table :=
+  owners_set T (snd p) (append_module_if_not_in (owners_get T (snd p)) (owner_for sc (fst p) (snd p))).
+
+Definition visits (mods : list module) : list (module * module) :=
+  flat_map (fun md => map (pair md) (whole_module sc md)) mods.
+
+Lemma snd_fold {A B C} (F : A * B -> C -> A * B) (G : B -> C -> B) l st :
+  (forall st x, snd (F st x) = G (snd st) x) -> snd (fold_left F l st) = fold_left G l (snd st).
+Proof. intro H. revert st. induction l as [|x l IH]; intro st; simpl; auto. rewrite IH, H. reflexivity. Qed.
+
+Lemma fold_left_map {A B C} (f : A -> B -> A) (gg : C -> B) l a :
+  fold_left f (map gg l) a = fold_left (fun a x => f a (gg x)) l a.
+Proof. revert a. induction l; intro a0; simpl; auto. Qed.
+
+Lemma snd_register mods st :
+  snd (fold_left (register_module sc) mods st) = fold_left own_step (visits mods) (snd st).
+Proof.
+  unfold visits. rewrite fold_left_flat_map.
+  apply snd_fold. intros st' md. unfold register_module. rewrite fold_left_map.
+  apply snd_fold. intros st'' m. reflexivity.
+Qed.
+
+Lemma owner_for_in md m : In md sc -> In m sc -> In (owner_for sc md m) sc.
+Proof.
+  intros H1 H2. unfold owner_for. destruct (m_sub m && negb (m_belongs m =? m_name md)); auto.
+  destruct (reg_get sc false (m_belongs m)) as [o|] eqn:E; auto. apply (reg_get_in _ _ _ _ E).
+Qed.
+
+Lemma same_mod_eq x y : In x sc -> In y sc -> (same_mod x y = true <-> x = y).
+Proof. intros Hx Hy. split; [apply Hwf; auto|intros ->; apply same_mod_refl]. Qed.
+
+Lemma append_in l o w : incl l sc -> In o sc ->
+  (In w (append_module_if_not_in l o) <-> In w l \/ w = o).
+Proof.
+  intros Hl Ho. unfold append_module_if_not_in. destruct (is_seen o l) eqn:E.
+  - split; auto. intros [H| ->]; auto.
+    apply is_seen_spec in E. destruct E as (y & Hy & Hs). apply Hwf in Hs; auto. subst; auto.
+  - rewrite in_app_iff. simpl. intuition.
+Qed.
+
+Definition good_table (T : owners_table) : Prop := forall m w, In w (owners_get T m) -> In w sc.
+
+Lemma fold_owners : forall pairs T,
+  (forall md m, In (md, m) pairs -> In md sc /\ In m sc) -> good_table T ->
+  good_table (fold_left own_step pairs T) /\
+  forall m, In m sc -> forall w,
+    In w (owners_get (fold_left own_step pairs T) m) <->
+    In w (owners_get T m) \/ exists md, In (md, m) pairs /\ w = owner_for sc md m.
+Proof.
+  induction pairs as [|[md0 m0] pairs IH]; intros T Hp HT; cbn [fold_left].
+  - split; auto. intros m Hm w. split; auto. intros [H|(md & [] & _)]; auto.
+  - destruct (Hp md0 m0 (or_introl eq_refl)) as (Hmd0 & Hm0).
+    pose proof (owner_for_in md0 m0 Hmd0 Hm0) as Ho.
+    assert (HT1 : good_table (own_step T (md0, m0))).
+    { intros m w. unfold own_step. cbn [fst snd]. rewrite owners_get_set.
+      destruct (same_mod m0 m); [|apply HT].
+      rewrite append_in; auto; [|intros x Hx; eapply HT; eauto]. intros [H| ->]; auto. eapply HT; eauto. }
+    destruct (IH (own_step T (md0, m0))) as (G & I); auto.
+    { intros md m H. apply Hp. right; auto. }
+    split; auto. intros m Hm w. rewrite (I m Hm w). unfold own_step. cbn [fst snd]. rewrite owners_get_set.
+    destruct (same_mod m0 m) eqn:E.
+    + apply (same_mod_eq m0 m Hm0 Hm) in E. subst m0.
+      rewrite append_in; auto; [|intros x Hx; eapply HT; eauto]. split.
+      * intros [[H| ->]|(md & H & ->)]; auto.
+        -- right. exists md0. split; auto. left; auto.
+        -- right. exists md. split; auto. right; auto.
+      * intros [H|(md & [H|H] & ->)]; auto.
+        -- inversion H; subst. auto.
+        -- right. exists md. auto.
+    + split.
+      * intros [H|(md & H & ->)]; auto. right. exists md. split; auto. right; auto.
+      * intros [H|(md & [H|H] & ->)]; auto.
+        -- inversion H; subst. rewrite same_mod_refl in E. discriminate.
+        -- right. exists md. auto.
+Qed.
+
+Lemma lone_keeps : forall subs T m, owners_has T m = true ->
+  owners_has (fold_left (lone_submodule sc) subs T) m = true /\
+  owners_get (fold_left (lone_submodule sc) subs T) m = owners_get T m.
+Proof.
+  induction subs as [|s subs IH]; intros T m H; cbn [fold_left]; auto.
+  unfold lone_submodule at 2 4. destruct (owners_has T s) eqn:Es; [apply IH; auto|].
+  destruct (IH (owners_set T s [match reg_get sc false (m_belongs s) with Some o => o | None => s end]) m)
+    as (A & B). { apply owners_has_set; auto. }
+  split; auto. rewrite B. rewrite owners_get_set.
+  destruct (same_mod s m) eqn:E; auto.
+  rewrite (owners_has_same T s m E) in Es. congruence.
+Qed.
+
+Lemma visible_in m : visible sc m -> In m sc.
+Proof.
+  intros (md & L & P). destruct (loaded_in sc _ _ L) as (Hmd & _).
+  induction P as [|m n dt s _ _ _ Hs]; auto. apply (find_module_in _ _ _ _ _ Hs).
+Qed.
+
+Theorem owners_spec m : visible sc m ->
+  forall w, In w (owners_get (snd (pass1 sc)) m) <-> owner_of sc m w.
+Proof.
+  intros Hv w. pose proof (visible_in m Hv) as Hm.
+  unfold pass1. cbn [snd]. rewrite snd_register. cbn [snd].
+  destruct (fold_owners (visits (sorted_modules sc false)) []) as (G & I).
+  { intros md m' H. unfold visits in H. apply in_flat_map in H. destruct H as (md' & Hmd & H).
+    apply in_map_iff in H. destruct H as (m'' & Hp & Hin). inversion Hp; subst.
+    apply loaded_sorted in Hmd; auto. split; [apply (loaded_in sc _ _ Hmd)|].
+    apply visible_in. exists md. split; auto. apply whole_module_spec; auto. }
+  { intros m' w' []. }
+  assert (Hiff : forall w', In w' (owners_get (fold_left own_step (visits (sorted_modules sc false)) []) m) <->
+                            owner_of sc m w').
+  { intro w'. rewrite (I m Hm w'). cbn [owners_get]. unfold owner_of, visits. split.
+    - intros [[]|(md & H & ->)]. apply in_flat_map in H. destruct H as (md' & Hmd & H).
+      apply in_map_iff in H. destruct H as (m'' & Hp & Hin). inversion Hp; subst.
+      apply loaded_sorted in Hmd; auto. exists md. split; auto. split; auto. apply whole_module_spec; auto.
+    - intros (md & L & P & ->). right. exists md. split; auto.
+      apply in_flat_map. exists md. split; [apply loaded_sorted; auto|].
+      apply in_map_iff. exists m. split; auto. apply whole_module_spec; auto. }
+  destruct (lone_keeps (sorted_modules sc true) (fold_left own_step (visits (sorted_modules sc false)) []) m) as (_ & E).
+  { apply owners_has_get. destruct Hv as (md & L & P).
+    intro Hnil. assert (Hw : owner_of sc m (owner_for sc md m)) by (exists md; auto).
+    apply Hiff in Hw. rewrite Hnil in Hw. destruct Hw. }
+  rewrite E. apply Hiff.
+Qed.
+End Owners.
+
+Theorem owners_run sc o2 o3 r : wf_schema sc -> is_oracle o2 -> is_oracle o3 ->
+  resolve_identities o2 o3 sc = Some r ->
+  forall m, visible sc m -> forall w, In w (owners_get (r_owners r) m) <-> owner_of sc m w.
+Proof.
+  intros Hwf H2 H3 E. destruct (resolve_inv sc o2 o3 r H2 H3 E) as (_ & -> & _). apply owners_spec; auto.
 Qed.
